@@ -1,38 +1,51 @@
 (* P_Refine.v -- provenance refinement (property C01, and through it C08, C10
-   and the provenance part of C09, C11, C12): on traces of the model the
+   and the provenance part of C04, C09, C11, C12): on traces of the model the
    provenance checker [chk_prov] (Check.v, section "Provenance of every
    argument") only ever reports the codes of the recorded finding D12.
 
-   STATUS (all stages fully proved; no axioms, no admits):
+   STATUS (every stage fully proved; no axioms, nothing admitted):
      Stage 1  shape of every EExec: consumer found (no 102), as many arguments
               as leaves (no 101), kinds agree (no 160); [place] is correct
-              ([place_correct], [sig_order_perm])                        DONE
+              ([place_correct], [sig_order_perm], [build_seq_In])         DONE
      Stage 2  cache coherence invariant [CI] (values, dvalues, groups,
               dgroups + presence of dgroups), preserved by every step
-              ([CI_gen], [CI_commit_ctor], [CI_commit_dec], [MH_step])   DONE
+              ([CI_gen], [CI_commit_ctor], [CI_commit_dec], [MH_step])    DONE
      Stage 3  single leaves: postcondition [LP_single], stable under log
-              extension ([LPk_mono]); codes 110, 120*, 122, 124 impossible DONE
-     Stage 4  group leaves: [LP_group]; codes 130, 140, 141, 150, 151
-              impossible                                                  DONE
+              extension ([LPk_mono]); 110, 120 (see below), 122, 124
+              impossible; AND 123 impossible (beyond what was asked: the
+              availability analysis is matched by [RDoomed], see below)   DONE
+     Stage 4  group leaves: [LP_group]; 130, 140, 141, 150, 151 impossible DONE
      Stage 5  assembly over [walk]: [prov_refines]; [chk_invoked_once_nil];
               [C01_refines], [C08_refines], [C10_refines]                 DONE
 
-   MAIN THEOREM
+   MAIN THEOREMS (all "Closed under the global context")
      prov_refines : wf_scopes h -> wf_strict h -> wf_fns h -> cfg_dry cfg = false ->
        In (i, c) (chk_prov bt h (map obs_of (run cfg (beh_of bt) du h))) ->
-       c = 112 \/ c = 132 \/ c = 123 \/ (c = 120 /\ has_opt h = true)
+       c = 112 \/ c = 132 \/ (c = 120 /\ has_opt h = true /\ has_dec h = true)
+     prov_refines_no_decorators : ... has_dec h = false -> chk_prov ... = []
+     prov_refines_no_optionals  : ... has_opt h = false -> c = 112 \/ c = 132
+     C01_refines, C08_refines, C10_refines : the same bound for chk_C01 (whose
+       second half, chk_invoked_once, is empty: [chk_invoked_once_nil]),
+       chk_C08, chk_C10.
 
    TWO DEVIATIONS FROM THE STATEMENT ASKED FOR, both forced (module
    [Counterexamples] at the end, all by vm_compute):
    (1) code 120 CAN occur on a model trace ([cex_opt_late]): an OPTIONAL
        single parameter receives zero because its provider failed
        findMissingDependencies, and a later leaf of the SAME consumer makes
-       that provider succeed (a decorated value for the missing key has
-       appeared in between), so when the consumer runs, the checker sees a
-       provider that has succeeded and a zero argument.  The theorem therefore
-       allows 120, but only for histories with an optional single parameter
-       ([has_opt]); the proof shows more: it is always this situation (the
-       leaf is optional and the value is AZero, see [LP_single]).
+       that provider succeed (a DECORATED value for the missing key has
+       appeared in between: findMissingDependencies also accepts a decorated
+       value in the view scope), so when the consumer runs, the checker sees a
+       provider that has succeeded and a zero argument.  The theorem allows
+       120 exactly there: only for histories with an optional single parameter
+       AND a Decorate; the proof shows that the leaf is optional and the value
+       AZero ([LP_single]).  Without decorators a provider that fails with
+       missing dependencies can never succeed later in the same operation:
+       it is "doomed" ([RDoomed], an inductive reading of the registry; lemmas
+       D1 = "a doomed task never returns Done", D2 = "Fail with a
+       missing-dependencies link implies doomed", both conjuncts of [MyP]),
+       and a doomed constructor is not available in the sense of
+       Spec.avail_set ([doomed_not_avail]) -- which is why 123 never fires.
    (2) [wf_keys] is not sufficient; the hypothesis is [wf_strict] (it implies
        [wf_keys]: [wf_strict_keys]): single RESULT keys have group 0 and group
        PARAMETER keys have a group name (else 130: [cex_kind1], [cex_kind2]);
@@ -43,7 +56,8 @@
 
    Structure
      Part 0-2   lists; the chronological log [LG]; build order and [place]
-     Part 3-5   [wf_strict]; static invariants [SI], [UI]; leaf postcondition
+     Part 3-5   [wf_strict]; static invariants [SI], [UI]; doomed constructors;
+                the leaf postcondition and the checker ([chk_args_LP])
      Part 6-7   what commits write; [CI] and its preservation
      Part 8-9   worlds [Wld], extensions [Ext], event obligations; the
                 evaluator level by level ([E_build_single], [E_build_group],
@@ -55,7 +69,7 @@ From Dig Require P_Once.
 From Dig Require Import P_Events P_Frame P_Term P_Reg.
 From Coq Require Import Permutation.
 
-(* RA: generic list facts, boolean checkers vs. relations, place / build order *)
+(* ---- generic list facts, boolean checkers vs. relations, place / build order *)
 
 (* ================================================================== *)
 (* Part 0 : generic facts                                              *)
@@ -220,23 +234,6 @@ Proof.
     destruct (p x).
     + eapply Permutation_trans; [apply perm_skip; apply IH; assumption|]. apply perm_swap.
     + apply IH; assumption.
-Qed.
-
-Lemma NoDup_flat_map : forall (A B : Type) (f : A -> list B) l,
-  NoDup l -> (forall x, In x l -> NoDup (f x)) ->
-  (forall x y z, In x l -> In y l -> x <> y -> In z (f x) -> In z (f y) -> False) ->
-  NoDup (flat_map f l).
-Proof.
-  intros A B f l; induction l as [|x l IH]; intros Hnd H1 H2; cbn; [constructor|].
-  inversion Hnd as [|? ? Hnin Hnd']; subst.
-  apply P_Frame.NoDup_app_disjoint.
-  - apply H1. left; reflexivity.
-  - apply IH; [exact Hnd'| |].
-    + intros y Hy. apply H1. right; exact Hy.
-    + intros a b z Ha Hb. apply H2; right; assumption.
-  - intros z Hz1 Hz2. apply in_flat_map in Hz2 as (y & Hy & Hz2).
-    apply (H2 x y z); [left; reflexivity|right; exact Hy| |exact Hz1|exact Hz2].
-    intros ->. contradiction.
 Qed.
 
 Lemma find_unique : forall (A : Type) (p : A -> bool) (l : list A) (d : A) i,
@@ -461,7 +458,7 @@ Lemma flat_map_map' : forall (A B C : Type) (g : A -> B) (f : B -> list C) l,
   flat_map f (map g l) = flat_map (fun x => f (g x)) l.
 Proof. intros A B C g f l; induction l as [|x l IH]; cbn; [reflexivity|]. rewrite IH. reflexivity. Qed.
 
-(* RB: well-formedness, static invariants, the leaf postcondition LP and its
+(* ---- well-formedness, static invariants, the leaf postcondition LP and its
    two uses (stability, soundness w.r.t. the checker) *)
 
 (* ================================================================== *)
@@ -507,6 +504,10 @@ Definition op_sig (o : op) : fsig :=
   end.
 (* some signature of the history has an optional single parameter *)
 Definition has_opt (h : history) : bool := existsb (fun o => negb (noopt_sig (op_sig o))) h.
+
+(* the history registers a decorator *)
+Definition is_decorate (o : op) : bool := match o with ODecorate _ _ => true | _ => false end.
+Definition has_dec (h : history) : bool := existsb is_decorate h.
 
 Lemma wf_sig2_leaves : forall sg l, wf_sig2 sg = true -> In l (sig_leaves sg) -> pleaf_ok2 l = true.
 Proof.
@@ -627,6 +628,124 @@ Proof.
 Qed.
 
 (* ================================================================== *)
+(* Part 4b : constructors that cannot succeed in this operation         *)
+(* ================================================================== *)
+
+(* Relative to the registry and to the log L0 at the start of the operation:
+   a constructor that has not succeeded yet and has a required single
+   parameter without provider, or whose nearest provider is doomed, or a
+   non-soft group parameter with a doomed feeder.  (Used only for registries
+   without decorators, where a registry-level analysis is exact.) *)
+Section Doomed.
+  Variable r : registry.
+  Variable L0 : list lentry.
+
+  Inductive RDoomed : sctor -> Prop :=
+  | rd_none : forall c k, succ_of L0 (sc_fn c) = None ->
+      In (LSingle k false) (sig_leaves (sc_sig c)) ->
+      nearest_provider r (sc_orig c) k = None -> RDoomed c
+  | rd_single : forall c k c', succ_of L0 (sc_fn c) = None ->
+      In (LSingle k false) (sig_leaves (sc_sig c)) ->
+      nearest_provider r (sc_orig c) k = Some c' -> RDoomed c' -> RDoomed c
+  | rd_group : forall c k c', succ_of L0 (sc_fn c) = None ->
+      In (LGroup k false) (sig_leaves (sc_sig c)) ->
+      In c' (feeders r (sc_orig c) k) -> RDoomed c' -> RDoomed c.
+
+  Definition leaf_bad (v : sid) (l : pleaf) : Prop :=
+    match l with
+    | LSingle k false => match nearest_provider r v k with None => True | Some c' => RDoomed c' end
+    | LGroup k false => exists c', In c' (feeders r v k) /\ RDoomed c'
+    | _ => False
+    end.
+
+  Lemma RDoomed_intro : forall c l, succ_of L0 (sc_fn c) = None ->
+    In l (sig_leaves (sc_sig c)) -> leaf_bad (sc_orig c) l -> RDoomed c.
+  Proof.
+    intros c l Hs Hl Hb. destruct l as [k [|]|k [|]]; cbn [leaf_bad] in Hb.
+    - destruct Hb.
+    - destruct (nearest_provider r (sc_orig c) k) as [c'|] eqn:E.
+      + eapply rd_single; eauto.
+      + eapply rd_none; eauto.
+    - destruct Hb.
+    - destruct Hb as (c' & Hc' & Hd). eapply rd_group; eauto.
+  Qed.
+
+  Lemma RDoomed_inv : forall c, RDoomed c ->
+    succ_of L0 (sc_fn c) = None /\ exists l, In l (sig_leaves (sc_sig c)) /\ leaf_bad (sc_orig c) l.
+  Proof.
+    intros c H. destruct H as [c k Hs Hl Hn|c k c' Hs Hl Hn Hd|c k c' Hs Hl Hf Hd]; (split; [exact Hs|]).
+    - exists (LSingle k false). split; [exact Hl|]. cbn. rewrite Hn. exact I.
+    - exists (LSingle k false). split; [exact Hl|]. cbn. rewrite Hn. exact Hd.
+    - exists (LGroup k false). split; [exact Hl|]. cbn. eauto.
+  Qed.
+End Doomed.
+
+
+Lemma NoDup_map_inj_In : forall (A B : Type) (f : A -> B) (l : list A) x y,
+  NoDup (map f l) -> In x l -> In y l -> f x = f y -> x = y.
+Proof.
+  intros A B f l; induction l as [|a l IH]; intros x y Hnd Hx Hy E; [destruct Hx|].
+  cbn in Hnd. inversion Hnd as [|? ? Hn Hd]; subst.
+  destruct Hx as [->|Hx], Hy as [->|Hy]; auto.
+  - exfalso. apply Hn. rewrite E. apply in_map. exact Hy.
+  - exfalso. apply Hn. rewrite <- E. apply in_map. exact Hx.
+Qed.
+
+Lemma feeders_In_ctors : forall r v k c, In c (feeders r v k) -> In c (r_ctors r).
+Proof. intros r v k c H. unfold feeders in H. apply filter_In in H. tauto. Qed.
+
+Lemma nearest_provider_ctors : forall r v k c, nearest_provider r v k = Some c -> In c (r_ctors r).
+Proof.
+  intros r v k c H. unfold nearest_provider in H.
+  induction (spath r v) as [|b0 t IH]; cbn [find_map] in H; [discriminate|].
+  destruct (hd_error (providers_in r b0 k)) as [c0|] eqn:E; [|apply IH; exact H].
+  injection H as ->. unfold providers_in in E. destruct (filter _ (r_ctors r)) as [|x l] eqn:Ef; [discriminate|].
+  cbn in E. injection E as ->.
+  assert (In c (filter (fun c0 => Nat.eqb (sc_home c0) b0 && provides_single c0 k) (r_ctors r))) by (rewrite Ef; left; reflexivity).
+  apply filter_In in H. tauto.
+Qed.
+
+(* a doomed constructor is not available in the sense of Spec.avail_set *)
+Lemma doomed_not_avail : forall r L0 built,
+  NoDup (map sc_fn (r_ctors r)) ->
+  (forall c, In c (r_ctors r) -> RDoomed r L0 c -> ~ In (sc_fn c) built) ->
+  forall c, In c (r_ctors r) -> RDoomed r L0 c -> avail_ctor r built c = false.
+Proof.
+  intros r L0 built Hnd Hb.
+  assert (STEP : forall A, (forall c, In c (r_ctors r) -> RDoomed r L0 c -> ~ In (sc_fn c) A) ->
+                 forall c, In c (r_ctors r) -> RDoomed r L0 c -> ~ In (sc_fn c) (avail_step r built A)).
+  { intros A HA c Hc Hd Hin. unfold avail_step in Hin. apply in_map_iff in Hin as (c2 & Efn & Hc2).
+    apply filter_In in Hc2 as [Hc2 Hcond].
+    assert (c2 = c) by (eapply NoDup_map_inj_In; eauto). subst c2.
+    apply orb_true_iff in Hcond as [Hbu|Hall].
+    - apply memb_nat_In in Hbu. exact (Hb c Hc Hd Hbu).
+    - destruct (RDoomed_inv r L0 c Hd) as (_ & l & Hl & Hbad).
+      rewrite forallb_forall in Hall. specialize (Hall l Hl).
+      destruct l as [k [|]|k [|]]; cbn [leaf_bad] in Hbad; cbn [leaf_avail] in Hall.
+      + destruct Hbad.
+      + destruct (nearest_provider r (sc_orig c) k) as [c'|] eqn:En; [|discriminate].
+        apply memb_nat_In in Hall. apply (HA c' (nearest_provider_ctors _ _ _ _ En) Hbad Hall).
+      + destruct Hbad.
+      + destruct Hbad as (c' & Hc' & Hd'). rewrite forallb_forall in Hall. specialize (Hall c' Hc').
+        apply memb_nat_In in Hall. apply (HA c' (feeders_In_ctors _ _ _ _ Hc') Hd' Hall). }
+  assert (ITER : forall m A, (forall c, In c (r_ctors r) -> RDoomed r L0 c -> ~ In (sc_fn c) A) ->
+                 forall c, In c (r_ctors r) -> RDoomed r L0 c -> ~ In (sc_fn c) (avail_iter m r built A)).
+  { induction m as [|m IH]; intros A HA; cbn [avail_iter]; [exact HA|]. apply IH. apply STEP. exact HA. }
+  intros c Hc Hd. unfold avail_ctor, avail_set.
+  destruct (memb Nat.eqb (sc_fn c) (avail_iter (S (length (r_ctors r))) r built [])) eqn:E; [|reflexivity].
+  exfalso. apply memb_nat_In in E. revert E. apply ITER; auto.
+Qed.
+
+Lemma built_of_succ : forall L f, In f (built_of L) -> succ_of L f <> None.
+Proof.
+  intros L f H. unfold built_of in H. apply in_flat_map in H as (l & Hl & Hf).
+  destruct (le_ok l) eqn:Eok; [|destruct Hf]. destruct Hf as [<-|[]].
+  unfold succ_of. induction L as [|x L IH]; [destruct Hl|]. cbn [find_map].
+  destruct (Nat.eqb (le_fn x) (le_fn l) && le_ok x) eqn:E; [discriminate|].
+  destruct Hl as [->|Hl]; [rewrite Nat.eqb_refl, Eok in E; discriminate|apply IH; exact Hl].
+Qed.
+
+(* ================================================================== *)
 (* Part 5 : the leaf postcondition                                     *)
 (* ================================================================== *)
 
@@ -635,9 +754,10 @@ Section LeafPost.
   Variable r : registry.
   Variable L0 : list lentry.        (* the log when the operation began *)
   Variable NO : bool.
+  Variable ND : bool.        (* the history has no Decorate *)
 
   Definition Allowed (c : nat) : Prop :=
-    c = 112 \/ c = 132 \/ c = 123 \/ (c = 120 /\ NO = false).
+    (c = 112 /\ ND = false) \/ (c = 132 /\ ND = false) \/ (c = 120 /\ NO = false /\ ND = false).
 
   Definition LP_single (L : list lentry) (OS : sdec -> Prop) (self : option fnid) (v : sid)
              (k : key) (opt : bool) (a : atom) : Prop :=
@@ -650,7 +770,7 @@ Section LeafPost.
         | Some c =>
             (exists e, succ_of L (sc_fn c) = Some e /\
                        a = AProd (sc_fn c) e (opt_default 0 (slot_of_single k 0 (sig_rleaves (sc_sig c)))) 0) \/
-            (opt = true /\ a = AZero)
+            (opt = true /\ a = AZero /\ (ND = false \/ RDoomed r L0 c))
         | None => opt = true /\ a = AZero
         end
     end.
@@ -724,35 +844,49 @@ Section LeafPost.
 
   (* ---------- soundness w.r.t. the checker ---------- *)
 
+  (* what the checker lemmas need to know about the log L and the on-stack predicate *)
+  Record ChkEnv (L : list lentry) (OS : sdec -> Prop) : Prop := mkChkEnv {
+    ce_os : forall d, OS d -> succ_of L (sd_fn d) = None;
+    ce_osnd : forall d, OS d -> ND = false;
+    ce_nd : ND = is_nil (r_decs r);
+    ce_fns : NoDup (map sc_fn (r_ctors r));
+    ce_doom : ND = true -> forall c, In c (r_ctors r) -> RDoomed r L0 c -> succ_of L (sc_fn c) = None
+  }.
+
   Lemma chk_single_LP : forall L (OS : sdec -> Prop) cn k opt a,
-    (forall d, OS d -> succ_of L (sd_fn d) = None) ->
+    ChkEnv L OS ->
     (NO = true -> opt = false) ->
     LP_single L OS (cn_self cn) (cn_view cn) k opt a ->
     forall c, In c (chk_single r L cn k opt a) -> Allowed c.
   Proof.
-    intros L OS cn k opt a HOS Hopt H c Hc. unfold LP_single in H. unfold chk_single in Hc.
+    intros L OS cn k opt a [HOS HOS2 HND Hfn HDm] Hopt H c Hc. unfold LP_single in H. unfold chk_single in Hc.
     destruct (decorators_on_path r (cn_view cn) k (cn_self cn)) as [|d t].
-    - destruct (nearest_provider r (cn_view cn) k) as [pc|].
-      + destruct H as [(e & E & ->)|[-> ->]].
+    - destruct (nearest_provider r (cn_view cn) k) as [pc|] eqn:Enp.
+      + destruct H as [(e & E & ->)|(-> & -> & HD)].
         * rewrite E in Hc. rewrite atom_eqb_refl in Hc. destruct Hc.
-        * destruct (succ_of L (sc_fn pc)) as [e|].
-          -- cbn in Hc. destruct Hc as [<-|[]]. right; right; right. split; [reflexivity|].
-             destruct NO; [discriminate (Hopt eq_refl)|reflexivity].
-          -- cbn [andb atom_eqb guardb app] in Hc.
-             destruct (negb (is_nil (r_decs r)) || negb (avail_ctor r (built_of L) pc)); cbn in Hc; [destruct Hc|].
-             destruct Hc as [<-|[]]. right; right; left; reflexivity.
+        * destruct (succ_of L (sc_fn pc)) as [e|] eqn:Es.
+          -- cbn in Hc. destruct Hc as [<-|[]]. right; right. split; [reflexivity|].
+             split; [destruct NO; [discriminate (Hopt eq_refl)|reflexivity]|].
+             destruct HD as [HD|HD]; [exact HD|].
+             destruct ND eqn:End; [|reflexivity].
+             rewrite (HDm eq_refl pc (nearest_provider_ctors _ _ _ _ Enp) HD) in Es. discriminate.
+          -- cbn [andb atom_eqb guardb app] in Hc. exfalso.
+             destruct (is_nil (r_decs r)) eqn:Enil; cbn [negb orb] in Hc; [|destruct Hc].
+             destruct HD as [HD|HD]; [congruence|].
+             rewrite (doomed_not_avail r L0 (built_of L) Hfn) in Hc; [destruct Hc| |apply (nearest_provider_ctors _ _ _ _ Enp)|exact HD].
+             intros c0 Hc0 Hd0 Hin. apply built_of_succ in Hin. apply Hin. apply HDm; [congruence|exact Hc0|exact Hd0].
       + destruct H as [-> ->]. cbn in Hc. destruct Hc.
     - destruct H as [(e & E & ->)|H].
       + rewrite E in Hc. rewrite atom_eqb_refl in Hc. destruct Hc.
-      + rewrite (HOS d H) in Hc. destruct Hc as [<-|[]]. left; reflexivity.
+      + rewrite (HOS d H) in Hc. destruct Hc as [<-|[]]. left. split; [reflexivity|apply (HOS2 d H)].
   Qed.
 
   Lemma chk_group_LP : forall L (OS : sdec -> Prop) cn k soft l,
-    (forall d, OS d -> succ_of L (sd_fn d) = None) ->
+    ChkEnv L OS ->
     LP_group L OS (cn_self cn) (cn_view cn) k soft l ->
     forall c, In c (chk_group bt r L0 L cn k soft l) -> Allowed c.
   Proof.
-    intros L OS cn k soft l HOS H c Hc. unfold LP_group in H. unfold chk_group in Hc.
+    intros L OS cn k soft l [HOS HOS2 _ _ _] H c Hc. unfold LP_group in H. unfold chk_group in Hc.
     destruct (decorators_on_path r (cn_view cn) k (cn_self cn)) as [|d t].
     - cbv zeta in H, Hc. destruct soft.
       + destruct H as (A & B & C).
@@ -763,31 +897,31 @@ Section LeafPost.
         destruct (succ_of L (sc_fn x)); [reflexivity|congruence].
     - destruct H as [(e & E & P)|H].
       + rewrite E in Hc. cbv zeta in Hc. rewrite (perm_eqb_complete _ _ P) in Hc. destruct Hc.
-      + rewrite (HOS d H) in Hc. destruct Hc as [<-|[]]. right; left; reflexivity.
+      + rewrite (HOS d H) in Hc. destruct Hc as [<-|[]]. right; left. split; [reflexivity|apply (HOS2 d H)].
   Qed.
 
   Lemma chk_args_LP : forall L (OS : sdec -> Prop) cn ls args,
-    (forall d, OS d -> succ_of L (sd_fn d) = None) ->
+    ChkEnv L OS ->
     (NO = true -> forall l, In l ls -> is_opt_leaf l = false) ->
     Forall2 (LPk L OS (cn_self cn) (cn_view cn)) ls args ->
     forall c, In c (chk_args bt r L0 L cn ls args) -> Allowed c.
   Proof.
-    intros L OS cn ls args HOS Hopt HF. induction HF as [|l x ls args Hlx HF IH]; intros c Hc; [destruct Hc|].
+    intros L OS cn ls args HE Hopt HF. induction HF as [|l x ls args Hlx HF IH]; intros c Hc; [destruct Hc|].
     assert (Hopt' : NO = true -> forall l0, In l0 ls -> is_opt_leaf l0 = false)
       by (intros HN l0 Hl0; apply Hopt; [exact HN|right; exact Hl0]).
     destruct l as [k opt|k soft], x as [a|al]; cbn [LPk] in Hlx.
     - cbn [chk_args] in Hc. apply in_app_or in Hc as [Hc|Hc]; [|apply IH; assumption].
-      apply (chk_single_LP L OS cn k opt a HOS); [|exact Hlx|exact Hc].
+      apply (chk_single_LP L OS cn k opt a HE); [|exact Hlx|exact Hc].
       intros HN. specialize (Hopt HN _ (or_introl eq_refl)).
       destruct opt; [discriminate Hopt|reflexivity].
     - destruct Hlx.
     - destruct Hlx.
     - cbn [chk_args] in Hc. apply in_app_or in Hc as [Hc|Hc]; [|apply IH; assumption].
-      exact (chk_group_LP L OS cn k soft al HOS Hlx c Hc).
+      exact (chk_group_LP L OS cn k soft al HE Hlx c Hc).
   Qed.
 End LeafPost.
 
-(* RC: what a commit writes; the cache-coherence invariant CI and its preservation *)
+(* ---- what a commit writes; the cache-coherence invariant CI and its preservation *)
 
 (* ================================================================== *)
 (* Part 6 : what commit_results / commit_decorated write               *)
@@ -1378,7 +1512,7 @@ Section Coherence.
   Qed.
 End Coherence.
 
-(* RD: the world invariant, extension relation, event obligations; combinators *)
+(* ---- the world invariant, extension relation, event obligations; combinators *)
 
 (* ================================================================== *)
 (* Part 8 : worlds, extensions, event obligations                      *)
@@ -1495,6 +1629,7 @@ Section World.
   Variable r : registry.
   Variable log0 : list event.
   Variable NO : bool.
+  Variable ND : bool.
 
   Definition sfx (st : state) : Prop := exists new, st_log st = new ++ log0.
 
@@ -1506,11 +1641,15 @@ Section World.
     w_SI : SI NO st;
     w_UI : UI st;
     w_CI : CI bt st;
-    w_sfx : sfx st
+    w_sfx : sfx st;
+    w_nodec : ND = true -> st_decs st = [];
+    w_D : ND = true -> forall n, n < length (st_nodes st) ->
+            RDoomed r (LG log0) (node_sctor st n) -> c_called (get_node st n) = false;
+    w_ND : ND = is_nil (r_decs r)
   }.
 
   Definition LPs (st : state) (self : option fnid) (v : sid) (l : pleaf) (x : arg) : Prop :=
-    LPk bt r (LG log0) (LGs st) (onstk st) self v l x.
+    LPk bt r (LG log0) ND (LGs st) (onstk st) self v l x.
 
   Lemma LPs_Ext : forall st st' self v l x, Ext st st' -> LPs st self v l x -> LPs st' self v l x.
   Proof.
@@ -1525,7 +1664,7 @@ Section World.
     match ev with
     | EExec f e rl args o =>
         rl <> RoleInv /\
-        forall c, In c (chk_exec_event bt r (LG log0) dummy_op (LG lb) ev) -> Allowed NO c
+        forall c, In c (chk_exec_event bt r (LG log0) dummy_op (LG lb) ev) -> Allowed NO ND c
     | ECallback _ _ _ => True
     end.
 
@@ -1595,7 +1734,7 @@ Section World.
   Qed.
 End World.
 
-(* RF: bridges used by the leaf lemmas *)
+(* ---- bridges used by the leaf lemmas *)
 
 Definition Cself (self : option fnid) (d : sdec) : bool :=
   negb (option_eqb Nat.eqb (Some (sd_fn d)) self).
@@ -1910,7 +2049,50 @@ Proof.
   destruct o as [lens| |]; cbn; rewrite H; reflexivity.
 Qed.
 
-(* RE: the evaluator, one level *)
+(* ---------- no provider at all ---------- *)
+
+Lemma find_provider_none : forall st k bs, find_provider st bs k = PNone ->
+  forall b, In b bs -> providers_at st b k = [].
+Proof.
+  intros st k bs; induction bs as [|b0 t IH]; intros H b Hb; [destruct Hb|]. cbn [find_provider] in H.
+  destruct (alookup key_eqb k (s_values (get_scope st b0))); [discriminate|].
+  destruct (providers_at st b0 k) as [|n ns] eqn:E; [|discriminate].
+  destruct Hb as [<-|Hb]; [exact E|apply IH; assumption].
+Qed.
+
+Lemma nearest_provider_none : forall st r v k, RegRel st r -> single_only r k ->
+  (forall b, In b (path st v) -> providers_at st b k = []) -> nearest_provider r v k = None.
+Proof.
+  intros st r v k HR Hk H. unfold nearest_provider. rewrite <- (path_spath st r v HR).
+  apply find_map_none_all. intros b Hb. rewrite (RegRel_providers_in st r b k HR Hk), (H b Hb). reflexivity.
+Qed.
+
+Lemma providers_on_path_nil : forall st v k, providers_on_path st v k = [] ->
+  forall b, In b (path st v) -> providers_at st b k = [].
+Proof. intros st v k H b Hb. unfold providers_on_path in H. eapply flat_map_nil_inv in H; eauto. Qed.
+
+Lemma shallow_missing_In : forall st v ls k, In k (shallow_missing st v ls) ->
+  In (LSingle k false) ls /\ providers_on_path st v k = [].
+Proof.
+  intros st v ls k H. unfold shallow_missing in H. apply in_flat_map in H as (l & Hl & Hk).
+  destruct l as [k' [|]|k' s]; try destruct Hk.
+  destruct (has_provider st v k' || is_some (alookup key_eqb k' (s_dvalues (get_scope st v)))) eqn:E; [destruct Hk|].
+  destruct Hk as [<-|[]]. split; [exact Hl|].
+  apply orb_false_iff in E as [E _]. unfold has_provider in E. apply negb_false_iff in E.
+  destruct (providers_on_path st v k'); [reflexivity|discriminate].
+Qed.
+
+Lemma build_seq_In : forall sg l, In l (sig_build_seq sg) <-> In l (sig_leaves sg).
+Proof.
+  intros sg l. unfold sig_build_seq. pose proof (sig_order_perm sg) as HP. split.
+  - intros H. apply in_map_iff in H as (i & <- & Hi).
+    apply (Permutation_in _ HP) in Hi. apply in_seq in Hi. apply nth_In. lia.
+  - intros H. apply (In_nth _ _ dummy_leaf) in H as (i & Hi & <-). apply in_map_iff. exists i. split; [reflexivity|].
+    apply (Permutation_in _ (Permutation_sym HP)). apply in_seq. lia.
+Qed.
+
+
+(* ---- the evaluator, one level *)
 
 Definition tpre2 (t : task) (st : state) : Prop :=
   match t with
@@ -1941,46 +2123,72 @@ Section EvalLevel.
   Variable r : registry.
   Variable log0 : list event.
   Variable NO : bool.
+  Variable ND : bool.
 
   Let b : beh := beh_of bt.
 
   Definition Post (t : task) (st : state) (o : out) : Prop :=
     match fst o, t with
-    | Done args, TLeaf v l => exists x, args = [x] /\ forall self, self_ok st self -> LPs bt r log0 (snd o) self v l x
-    | Done args, TLeaves v ls => forall self, self_ok st self -> Forall2 (LPs bt r log0 (snd o) self v) ls args
+    | Done args, TLeaf v l => exists x, args = [x] /\ forall self, self_ok st self -> LPs bt r log0 ND (snd o) self v l x
+    | Done args, TLeaves v ls => forall self, self_ok st self -> Forall2 (LPs bt r log0 ND (snd o) self v) ls args
     | _, _ => True
     end.
 
+  (* a task that cannot succeed in this operation (decorator-free registries) *)
+  Definition bad (t : task) (st : state) : Prop :=
+    match t with
+    | TLeaf v l => leaf_bad r (LG log0) v l
+    | TLeaves v ls => exists l, In l ls /\ leaf_bad r (LG log0) v l
+    | TCallCtor n => RDoomed r (LG log0) (node_sctor st n)
+    | TCallDec _ => False
+    end.
+
+  Definition DInv (st : state) : Prop :=
+    ND = true -> forall n, n < length (st_nodes st) ->
+      RDoomed r (LG log0) (node_sctor st n) -> c_called (get_node st n) = false.
+
+  Definition CD (st : state) : Prop := CI bt st /\ DInv st.
+
   Definition MyP (t : task) (st : state) (o : out) : Prop :=
-    Wld bt r log0 NO st -> tpre2 t st ->
-    CI bt (snd o) /\ NewOK bt r log0 NO st (snd o) /\ Post t st o.
+    Wld bt r log0 NO ND st -> tpre2 t st ->
+    CD (snd o) /\ NewOK bt r log0 NO ND st (snd o) /\ Post t st o /\
+    (ND = true -> bad t st -> forall x, fst o <> Done x) /\
+    (ND = true -> forall e, fst o = Fail e -> has_missingdeps e = true -> bad t st).
 
   Variable fuel : nat.
   Let rec : task -> state -> out := eval cfg b du fuel.
   Hypothesis IH : forall t st, MyP t st (rec t st).
 
-  Notation W := (Wld bt r log0 NO).
-  Notation NOK := (NewOK bt r log0 NO).
+  Notation W := (Wld bt r log0 NO ND).
+  Notation NOK := (NewOK bt r log0 NO ND).
+  Notation L0 := (LG log0).
+
+  Lemma W_CD : forall st, W st -> CD st.
+  Proof. intros st HW. split; [apply (w_CI _ _ _ _ _ _ HW)|exact (w_D _ _ _ _ _ _ HW)]. Qed.
 
   (* everything a recursive call gives *)
   Lemma W_rec : forall t st, W st -> tpre2 t st ->
     W (snd (rec t st)) /\ Ext st (snd (rec t st)) /\ NOK st (snd (rec t st)) /\
-    P_Term.tpost t (fst (rec t st)) (snd (rec t st)) /\ Post t st (rec t st).
+    P_Term.tpost t (fst (rec t st)) (snd (rec t st)) /\ Post t st (rec t st) /\
+    (ND = true -> bad t st -> forall x, fst (rec t st) <> Done x) /\
+    (ND = true -> forall e, fst (rec t st) = Fail e -> has_missingdeps e = true -> bad t st).
   Proof.
-    intros t st HW Hp. destruct (IH t st HW Hp) as (HC & HN & HPo).
-    destruct HW as [HG HR Hrefs Honce HSI HUI HCI Hsfx].
+    intros t st HW Hp. destruct (IH t st HW Hp) as ((HC & HDI) & HN & HPo & HB1 & HB2).
+    destruct HW as [HG HR Hrefs Honce HSI HUI HCI Hsfx Hnd HD HNDr].
     destruct (eval_PT cfg b du fuel t st) as [Hpres HPT]. fold rec in Hpres, HPT.
     destruct (HPT (tpre2_tpre _ _ Hp) HG) as (HG' & HTR & Hpost).
     pose proof (P_Once.eval_frame cfg b du fuel t st) as Hfr. fold rec in Hfr.
     destruct (P_Once.eval_once cfg b du Hdry fuel t st Hrefs (tpre2_pre _ _ Hp) Honce) as [Honce' Hrel]. fold rec in Honce', Hrel.
     assert (HE : Ext st (snd (rec t st))) by (split; [|split; [|split]]; assumption).
-    split; [|split; [exact HE|split; [exact HN|split; [exact Hpost|exact HPo]]]].
+    split; [|split; [exact HE|split; [exact HN|split; [exact Hpost|split; [exact HPo|split; [exact HB1|exact HB2]]]]]].
     constructor; auto.
     - eapply RegRel_pres; eauto.
     - eapply P_Once.refs_ok_frame; eauto.
     - eapply SI_pres; eauto.
     - eapply UI_pres; eauto.
     - eapply sfx_Ext; eauto.
+    - intros HN'. destruct (pres_lens _ _ Hpres) as (_ & LD & _). rewrite (Hnd HN') in LD.
+      apply length_zero_iff_nil. exact LD.
   Qed.
 
   (* ---------- the loops ---------- *)
@@ -1988,19 +2196,34 @@ Section EvalLevel.
   Lemma E_call_ctors : forall ns st, W st -> (forall n, In n ns -> n < length (st_nodes st)) ->
     W (snd (call_ctors rec ns st)) /\ Ext st (snd (call_ctors rec ns st)) /\ NOK st (snd (call_ctors rec ns st)) /\
     (fst (call_ctors rec ns st) = LDone ->
-     forall n, In n ns -> c_called (get_node (snd (call_ctors rec ns st)) n) = true).
+     forall n, In n ns -> c_called (get_node (snd (call_ctors rec ns st)) n) = true) /\
+    (ND = true -> (exists n, In n ns /\ RDoomed r L0 (node_sctor st n)) -> fst (call_ctors rec ns st) <> LDone) /\
+    (ND = true -> forall cr e, fst (call_ctors rec ns st) = LFail cr e -> has_missingdeps e = true ->
+       exists n, In n ns /\ RDoomed r L0 (node_sctor st n)).
   Proof.
     induction ns as [|n t IHn]; intros st HW Hr; cbn [call_ctors].
-    - cbn [fst snd]. split; [exact HW|]. split; [apply Ext_refl|]. split; [apply NewOK_refl|]. intros _ n [].
-    - destruct (W_rec (TCallCtor n) st HW (Hr n (or_introl eq_refl))) as (W1 & E1 & N1 & Po1 & _).
+    - cbn [fst snd]. split; [exact HW|]. split; [apply Ext_refl|]. split; [apply NewOK_refl|].
+      split; [intros _ n []|]. split; [intros _ (n & [] & _)|intros _ cr e; discriminate].
+    - destruct (W_rec (TCallCtor n) st HW (Hr n (or_introl eq_refl))) as (W1 & E1 & N1 & Po1 & _ & B1 & B2).
+      cbn [bad] in B1, B2.
       destruct (rec (TCallCtor n) st) as [[a|e|a] st1]; cbn [fst snd] in *.
       + destruct Po1 as [_ C1].
-        destruct (IHn st1 W1) as (W2 & E2 & N2 & C2).
+        destruct (IHn st1 W1) as (W2 & E2 & N2 & C2 & D2 & F2).
         { intros m Hm. destruct (Ext_lens _ _ E1) as (-> & _). apply Hr. right. exact Hm. }
+        assert (SC : forall m, node_sctor st1 m = node_sctor st m) by (intros m; apply Ext_sctor; exact E1).
         split; [exact W2|]. split; [eapply Ext_trans; eauto|]. split; [eapply NewOK_trans; eauto|].
-        intros HD m [<-|Hm]; [eapply Ext_called; eauto|apply C2; assumption].
-      + split; [exact W1|]. split; [exact E1|]. split; [exact N1|discriminate].
-      + split; [exact W1|]. split; [exact E1|]. split; [exact N1|discriminate].
+        split; [|split].
+        * intros HD m [<-|Hm]; [eapply Ext_called; eauto|apply C2; assumption].
+        * intros HN (m & [<-|Hm] & Hdm).
+          -- exfalso. apply (B1 HN Hdm a). reflexivity.
+          -- apply (D2 HN). exists m. split; [exact Hm|]. rewrite SC. exact Hdm.
+        * intros HN cr e He Hm. destruct (F2 HN cr e He Hm) as (m & Hm' & Hdm).
+          exists m. split; [right; exact Hm'|]. rewrite <- SC. exact Hdm.
+      + split; [exact W1|]. split; [exact E1|]. split; [exact N1|]. split; [discriminate|].
+        split; [intros _ _; discriminate|].
+        intros HN cr e' [= <- <-] Hm. exists n. split; [left; reflexivity|]. apply (B2 HN e eq_refl Hm).
+      + split; [exact W1|]. split; [exact E1|]. split; [exact N1|]. split; [discriminate|].
+        split; [intros _ _; discriminate|intros _ cr e'; discriminate].
   Qed.
 
   Lemma E_call_group_decs : forall k bs st, W st ->
@@ -2008,53 +2231,73 @@ Section EvalLevel.
     NOK st (snd (call_group_decs rec k bs st)) /\
     (fst (call_group_decs rec k bs st) = LDone ->
      forall s d, In s bs -> alookup key_eqb k (s_decorators (get_scope st s)) = Some d ->
-       d_state (get_dec st d) = DOnStack \/ d_state (get_dec (snd (call_group_decs rec k bs st)) d) = DCalled).
+       d_state (get_dec st d) = DOnStack \/ d_state (get_dec (snd (call_group_decs rec k bs st)) d) = DCalled) /\
+    (ND = true -> fst (call_group_decs rec k bs st) = LDone).
   Proof.
     intros k; induction bs as [|s t IHb]; intros st HW; cbn [call_group_decs].
-    - cbn [fst snd]. split; [exact HW|]. split; [apply Ext_refl|]. split; [apply NewOK_refl|]. intros _ s d [].
+    - cbn [fst snd]. split; [exact HW|]. split; [apply Ext_refl|]. split; [apply NewOK_refl|]. split; [intros _ s d []|reflexivity].
     - destruct (alookup key_eqb k (s_decorators (get_scope st s))) as [d|] eqn:E.
-      2:{ destruct (IHb st HW) as (W2 & E2 & N2 & C2). split; [exact W2|]. split; [exact E2|]. split; [exact N2|].
+      2:{ destruct (IHb st HW) as (W2 & E2 & N2 & C2 & D2). split; [exact W2|]. split; [exact E2|]. split; [exact N2|].
+          split; [|exact D2].
           intros HD s' d' [<-|Hs'] Hl; [congruence|]. apply (C2 HD s' d'); assumption. }
+      assert (Hdr : d < length (st_decs st)) by (eapply dec_range; [apply (Wld_SInv _ _ _ _ _ _ HW)|exact E]).
+      assert (NDF : ND = true -> False).
+      { intros HN. rewrite (w_nodec _ _ _ _ _ _ HW HN) in Hdr. cbn in Hdr. lia. }
       destruct (dstate_eqb (d_state (get_dec st d)) DOnStack) eqn:Eo.
-      { destruct (IHb st HW) as (W2 & E2 & N2 & C2). split; [exact W2|]. split; [exact E2|]. split; [exact N2|].
+      { destruct (IHb st HW) as (W2 & E2 & N2 & C2 & D2). split; [exact W2|]. split; [exact E2|]. split; [exact N2|].
+        split; [|exact D2].
         intros HD s' d' [<-|Hs'] Hl; [|apply (C2 HD s' d'); assumption].
         left. rewrite E in Hl. injection Hl as <-. apply P_Once.dstate_eqb_true. exact Eo. }
       assert (Hpre : tpre2 (TCallDec d) st).
-      { split; [eapply dec_range; [apply (Wld_SInv _ _ _ _ _ HW)|exact E]|]. apply P_Once.dstate_eqb_false. exact Eo. }
+      { split; [exact Hdr|]. apply P_Once.dstate_eqb_false. exact Eo. }
       destruct (W_rec (TCallDec d) st HW Hpre) as (W1 & E1 & N1 & Po1 & _).
       destruct (rec (TCallDec d) st) as [[a|e|a] st1]; cbn [fst snd] in *.
       + destruct Po1 as [_ C1].
-        destruct (IHb st1 W1) as (W2 & E2 & N2 & C2).
+        destruct (IHb st1 W1) as (W2 & E2 & N2 & C2 & D2).
         split; [exact W2|]. split; [eapply Ext_trans; eauto|]. split; [eapply NewOK_trans; eauto|].
+        split; [|exact D2].
         intros HD s' d' [<-|Hs'] Hl.
         * rewrite E in Hl. injection Hl as <-. right. eapply Ext_dcalled; eauto.
         * rewrite <- (Ext_decorators _ _ s' E1) in Hl. destruct (C2 HD s' d' Hs' Hl) as [H|H]; [|right; exact H].
           left. apply (Ext_donstack _ _ d' E1). exact H.
-      + split; [exact W1|]. split; [exact E1|]. split; [exact N1|discriminate].
-      + split; [exact W1|]. split; [exact E1|]. split; [exact N1|discriminate].
+      + split; [exact W1|]. split; [exact E1|]. split; [exact N1|]. split; [discriminate|intros HN; destruct (NDF HN)].
+      + split; [exact W1|]. split; [exact E1|]. split; [exact N1|]. split; [discriminate|intros HN; destruct (NDF HN)].
   Qed.
 
   Lemma E_build_list : forall v ls st, W st -> forallb pleaf_ok2 ls = true ->
     W (snd (build_list rec v ls st)) /\ Ext st (snd (build_list rec v ls st)) /\ NOK st (snd (build_list rec v ls st)) /\
     (forall args, fst (build_list rec v ls st) = Done args ->
-       forall self, self_ok st self -> Forall2 (LPs bt r log0 (snd (build_list rec v ls st)) self v) ls args).
+       forall self, self_ok st self -> Forall2 (LPs bt r log0 ND (snd (build_list rec v ls st)) self v) ls args) /\
+    (ND = true -> (exists l, In l ls /\ leaf_bad r L0 v l) -> forall x, fst (build_list rec v ls st) <> Done x) /\
+    (ND = true -> forall e, fst (build_list rec v ls st) = Fail e -> has_missingdeps e = true ->
+       exists l, In l ls /\ leaf_bad r L0 v l).
   Proof.
     intros v; induction ls as [|l t IHl]; intros st HW Hl; cbn [build_list].
     - cbn [fst snd]. split; [exact HW|]. split; [apply Ext_refl|]. split; [apply NewOK_refl|].
-      intros args [= <-] self _. constructor.
+      split; [intros args [= <-] self _; constructor|]. split; [intros _ (l & [] & _)|intros _ e; discriminate].
     - cbn [forallb] in Hl. apply andb_true_iff in Hl as [Hl Ht].
-      destruct (W_rec (TLeaf v l) st HW Hl) as (W1 & E1 & N1 & _ & Po1). unfold Post in Po1.
+      destruct (W_rec (TLeaf v l) st HW Hl) as (W1 & E1 & N1 & _ & Po1 & B1 & B2). unfold Post in Po1. cbn [bad] in B1, B2.
       destruct (rec (TLeaf v l) st) as [[a|e|a] st1]; cbn [fst snd] in *.
       + destruct Po1 as (x & -> & Hx).
-        destruct (IHl st1 W1 Ht) as (W2 & E2 & N2 & F2).
+        destruct (IHl st1 W1 Ht) as (W2 & E2 & N2 & F2 & D2 & G2).
+        assert (BADT : ND = true -> (exists l0, In l0 (l :: t) /\ leaf_bad r L0 v l0) -> exists l0, In l0 t /\ leaf_bad r L0 v l0).
+        { intros HN (l0 & [<-|Hl0] & Hb); [exfalso; apply (B1 HN Hb [x]); reflexivity|eauto]. }
         destruct (build_list rec v t st1) as [[r2|e2|a2] st2]; cbn [fst snd] in *;
-          (split; [exact W2|]; split; [eapply Ext_trans; eauto|]; split; [eapply NewOK_trans; eauto|]);
-          try (intros args; discriminate).
-        intros args [= <-] self Hself. cbn [app]. constructor.
-        * eapply LPs_Ext; [exact E2|]. apply Hx. exact Hself.
-        * apply F2; [reflexivity|]. eapply Ext_self_ok; eauto.
-      + split; [exact W1|]. split; [exact E1|]. split; [exact N1|]. intros args; discriminate.
-      + split; [exact W1|]. split; [exact E1|]. split; [exact N1|]. intros args; discriminate.
+          (split; [exact W2|]; split; [eapply Ext_trans; eauto|]; split; [eapply NewOK_trans; eauto|]).
+        * split; [|split].
+          -- intros args [= <-] self Hself. cbn [app]. constructor.
+             ++ eapply LPs_Ext; [exact E2|]. apply Hx. exact Hself.
+             ++ apply F2; [reflexivity|]. eapply Ext_self_ok; eauto.
+          -- intros HN Hb y _. apply (D2 HN (BADT HN Hb) r2). reflexivity.
+          -- intros _ e; discriminate.
+        * split; [intros args; discriminate|]. split; [intros _ _ y; discriminate|].
+          intros HN e [= <-] Hm. destruct (G2 HN e2 eq_refl Hm) as (l0 & Hl0 & Hb). exists l0. split; [right; exact Hl0|exact Hb].
+        * split; [intros args; discriminate|]. split; [intros _ _ y; discriminate|intros _ e; discriminate].
+      + split; [exact W1|]. split; [exact E1|]. split; [exact N1|]. split; [intros args; discriminate|].
+        split; [intros _ _ y; discriminate|].
+        intros HN e' [= <-] Hm. exists l. split; [left; reflexivity|]. apply (B2 HN e eq_refl Hm).
+      + split; [exact W1|]. split; [exact E1|]. split; [exact N1|]. split; [intros args; discriminate|].
+        split; [intros _ _ y; discriminate|intros _ e; discriminate].
   Qed.
 
   (* ---------- single leaves ---------- *)
@@ -2065,38 +2308,64 @@ Section EvalLevel.
     exists q. split; [exact Hq|]. destruct q; [exact Hk|destruct Hk].
   Qed.
 
+  (* the nearest providing scope has exactly one provider of a single key: the nearest provider *)
+  Lemma prov_is_nearest : forall st v k pre b0 post n,
+    W st -> k_group k = 0 ->
+    path st v = pre ++ b0 :: post ->
+    (forall b', In b' pre -> providers_at st b' k = []) ->
+    In n (providers_at st b0 k) ->
+    providers_at st b0 k = [n] /\ nearest_provider r v k = Some (node_sctor st n).
+  Proof.
+    intros st v k pre b0 post n HW Hk Hpath Hpre Hin.
+    pose proof (w_R _ _ _ _ _ _ HW) as HR.
+    pose proof (UI_single st r b0 k n HR (w_UI _ _ _ _ _ _ HW) Hk Hin) as Hone.
+    split; [exact Hone|].
+    eapply nearest_provider_at; eauto. eapply SI_single_only; eauto. apply (w_SI _ _ _ _ _ _ HW).
+  Qed.
+
   (* a cached or freshly committed value of k in scope b on the path, no provider nearer:
      it is the nearest provider's output *)
-  Lemma value_is_nearest : forall st v k pre b post a,
+  Lemma value_is_nearest : forall st v k pre b0 post a,
     W st -> k_group k = 0 ->
-    path st v = pre ++ b :: post ->
+    path st v = pre ++ b0 :: post ->
     (forall b', In b' pre -> providers_at st b' k = []) ->
-    alookup key_eqb k (s_values (get_scope st b)) = Some a ->
-    exists c e, nearest_provider r v k = Some c /\ succ_of (LGs st) (sc_fn c) = Some e /\
-      a = AProd (sc_fn c) e (opt_default 0 (slot_of_single k 0 (sig_rleaves (sc_sig c)))) 0.
+    alookup key_eqb k (s_values (get_scope st b0)) = Some a ->
+    exists n e, n < length (st_nodes st) /\ c_called (get_node st n) = true /\
+      nearest_provider r v k = Some (node_sctor st n) /\
+      succ_of (LGs st) (sc_fn (node_sctor st n)) = Some e /\
+      a = AProd (sc_fn (node_sctor st n)) e
+            (opt_default 0 (slot_of_single k 0 (sig_rleaves (sc_sig (node_sctor st n))))) 0.
   Proof.
     intros st v k pre b0 post a HW Hk Hpath Hpre Hv.
-    destruct (ci_values bt st (w_CI _ _ _ _ _ HW) b0 k a Hv) as (n & e & slot & Hn & Hh & Hc & Hs & Hsl & ->).
-    pose proof (w_R _ _ _ _ _ HW) as HR.
+    destruct (ci_values bt st (w_CI _ _ _ _ _ _ HW) b0 k a Hv) as (n & e & slot & Hn & Hh & Hc & Hs & Hsl & ->).
+    pose proof (w_R _ _ _ _ _ _ HW) as HR.
     assert (Hin : In n (providers_at st b0 k)).
     { apply (RegRel_providers_In st r b0 k n HR). split; [exact Hn|]. split; [exact Hh|].
       apply skeys_sig_keys. eapply slot_of_single_In. exact Hsl. }
-    pose proof (UI_single st r b0 k n HR (w_UI _ _ _ _ _ HW) Hk Hin) as Hone.
-    exists (node_sctor st n), e. split; [|split].
-    - eapply nearest_provider_at; eauto. eapply SI_single_only; eauto. apply (w_SI _ _ _ _ _ HW).
-    - exact Hs.
-    - unfold node_sctor. cbn [sc_fn sc_sig sctor_of]. rewrite Hsl. reflexivity.
+    destruct (prov_is_nearest st v k pre b0 post n HW Hk Hpath Hpre Hin) as [_ Hnp].
+    exists n, e. split; [exact Hn|]. split; [exact Hc|]. split; [exact Hnp|].
+    unfold node_sctor. cbn [sc_fn sc_sig sctor_of]. rewrite Hsl. split; [exact Hs|reflexivity].
   Qed.
 
+  Lemma has_missingdeps_wrap_single : forall cr k e, has_missingdeps (wrap (LParamSingle cr k) e) = has_missingdeps e.
+  Proof. reflexivity. Qed.
+  Lemma has_missingdeps_wrap_group : forall cr k e, has_missingdeps (wrap (LParamGroup cr k) e) = has_missingdeps e.
+  Proof. reflexivity. Qed.
+  Lemma has_missingdeps_wrap_args : forall e, has_missingdeps (wrap LArgsFailed e) = has_missingdeps e.
+  Proof. reflexivity. Qed.
+
   Lemma E_build_single : forall v k opt st, W st -> k_group k = 0 ->
-    CI bt (snd (build_single rec v k opt st)) /\ NOK st (snd (build_single rec v k opt st)) /\
+    CD (snd (build_single rec v k opt st)) /\ NOK st (snd (build_single rec v k opt st)) /\
     (forall args, fst (build_single rec v k opt st) = Done args ->
        exists x, args = [x] /\
-         forall self, self_ok st self -> LPs bt r log0 (snd (build_single rec v k opt st)) self v (LSingle k opt) x).
+         forall self, self_ok st self -> LPs bt r log0 ND (snd (build_single rec v k opt st)) self v (LSingle k opt) x) /\
+    (ND = true -> leaf_bad r L0 v (LSingle k opt) -> forall x, fst (build_single rec v k opt st) <> Done x) /\
+    (ND = true -> forall e, fst (build_single rec v k opt st) = Fail e -> has_missingdeps e = true ->
+       leaf_bad r L0 v (LSingle k opt)).
   Proof.
     intros v k opt st HW Hk. unfold build_single.
-    pose proof (w_R _ _ _ _ _ HW) as HR.
-    pose proof (Wld_nodup _ _ _ _ _ HW) as Hnd.
+    pose proof (w_R _ _ _ _ _ _ HW) as HR.
+    pose proof (Wld_nodup _ _ _ _ _ _ HW) as Hnd.
     assert (Hdop : forall self, decorators_on_path r v k self =
                map (node_sdec st) (filter (fun x => Cself self (node_sdec st x)) (decs_on_path st v k)))
       by (intros self; apply dop_self; exact HR).
@@ -2107,17 +2376,21 @@ Section EvalLevel.
     destruct (find_dec st v k) as [[d bsc]|] eqn:EF.
     - (* a decorator that is not on the stack *)
       destruct (find_dec_sound st r v k d bsc HR EF) as (pre & post & Hdecs & _ & Hpre & Hdn & Hb & Hbin & Hd & Hmem & Hlook).
+      assert (NDF : ND = true -> False).
+      { intros HN. rewrite (w_nodec _ _ _ _ _ _ HW HN) in Hd. cbn in Hd. lia. }
       assert (Hp : tpre2 (TCallDec d) st) by (split; assumption).
       destruct (W_rec (TCallDec d) st HW Hp) as (W1 & E1 & N1 & Po1 & _).
       destruct (rec (TCallDec d) st) as [[rr0|e0|a0] st1]; cbn [fst snd] in *.
       + destruct (alookup key_eqb k (s_dvalues (get_scope st1 bsc))) as [a|] eqn:EA; cbn [fst snd].
-        2:{ split; [apply (w_CI _ _ _ _ _ W1)|]. split; [exact N1|]. intros args; discriminate. }
-        split; [apply (w_CI _ _ _ _ _ W1)|]. split; [exact N1|].
+        2:{ split; [apply (W_CD _ W1)|]. split; [exact N1|]. split; [intros args; discriminate|].
+            split; [intros _ _ x; discriminate|intros _ e; discriminate]. }
+        split; [apply (W_CD _ W1)|]. split; [exact N1|].
+        split; [|split; [intros HN; destruct (NDF HN)|intros HN; destruct (NDF HN)]].
         intros args [= <-]. exists (ASingle a). split; [reflexivity|]. intros self Hself.
         unfold LPs. cbn [LPk]. unfold LP_single.
-        destruct (ci_dvalues bt st1 (w_CI _ _ _ _ _ W1) bsc k a EA) as (d' & e & slot & Hd' & Hh' & Hc' & Hs' & Hsl' & ->).
+        destruct (ci_dvalues bt st1 (w_CI _ _ _ _ _ _ W1) bsc k a EA) as (d' & e & slot & Hd' & Hh' & Hc' & Hs' & Hsl' & ->).
         assert (d' = d).
-        { pose proof (dec_lookup_unique st1 r bsc k d' slot (w_R _ _ _ _ _ W1) Hd' Hh' Hsl') as HL.
+        { pose proof (dec_lookup_unique st1 r bsc k d' slot (w_R _ _ _ _ _ _ W1) Hd' Hh' Hsl') as HL.
           rewrite (Ext_decorators _ _ bsc E1) in HL. congruence. }
         subst d'.
         rewrite (Hdop self), Hdecs, filter_app. cbn [filter].
@@ -2136,8 +2409,10 @@ Section EvalLevel.
           { assert (In x (filter (fun x => Cself self (node_sdec st x)) pre)) by (rewrite Efp; left; reflexivity).
             apply filter_In in H. tauto. }
           apply Hstk; [exact E1| |apply Hpre; exact Hx]. rewrite Hdecs. apply in_or_app. left. exact Hx.
-      + split; [apply (w_CI _ _ _ _ _ W1)|]. split; [exact N1|]. intros args; discriminate.
-      + split; [apply (w_CI _ _ _ _ _ W1)|]. split; [exact N1|]. intros args; discriminate.
+      + split; [apply (W_CD _ W1)|]. split; [exact N1|]. split; [intros args; discriminate|].
+        split; [intros _ _ x; discriminate|intros HN; destruct (NDF HN)].
+      + split; [apply (W_CD _ W1)|]. split; [exact N1|]. split; [intros args; discriminate|].
+        split; [intros _ _ x; discriminate|intros _ e; discriminate].
     - (* every decorator of k on the path is on the stack *)
       assert (Hall : forall x, In x (decs_on_path st v k) -> d_state (get_dec st x) = DOnStack).
       { intros x Hx. rewrite (find_dec_char st r v k HR) in EF.
@@ -2153,58 +2428,93 @@ Section EvalLevel.
           apply filter_In in H. tauto. }
         apply Hstk; auto. }
       (* the shape of LP when no decorator applies *)
-      assert (LPZ : forall st', Ext st st' -> opt = true -> forall self,
-                 LPs bt r log0 st' self v (LSingle k opt) (ASingle AZero)).
-      { intros st' HE Ho self. unfold LPs. cbn [LPk]. unfold LP_single.
+      assert (LPZ : forall st', Ext st st' -> opt = true ->
+                 (forall c, nearest_provider r v k = Some c -> ND = false \/ RDoomed r L0 c) ->
+                 forall self, LPs bt r log0 ND st' self v (LSingle k opt) (ASingle AZero)).
+      { intros st' HE Ho Hdm self. unfold LPs. cbn [LPk]. unfold LP_single.
         pose proof (Hhead st' self HE) as Hh.
         destruct (decorators_on_path r v k self) as [|h t]; [|right; exact Hh].
-        destruct (nearest_provider r v k); [right|]; split; auto. }
+        destruct (nearest_provider r v k) as [c|]; [right|]; repeat split; auto. }
       assert (LPV : forall st' a, Ext st st' ->
                  (exists c e, nearest_provider r v k = Some c /\ succ_of (LGs st') (sc_fn c) = Some e /\
                     a = AProd (sc_fn c) e (opt_default 0 (slot_of_single k 0 (sig_rleaves (sc_sig c)))) 0) ->
-                 forall self, LPs bt r log0 st' self v (LSingle k opt) (ASingle a)).
+                 forall self, LPs bt r log0 ND st' self v (LSingle k opt) (ASingle a)).
       { intros st' a HE (c & e & Hnp & Hs & ->) self. unfold LPs. cbn [LPk]. unfold LP_single.
         pose proof (Hhead st' self HE) as Hh.
         destruct (decorators_on_path r v k self) as [|h t]; [|right; exact Hh].
         rewrite Hnp. left. exists e. split; [exact Hs|reflexivity]. }
       destruct (find_map (fun s => alookup key_eqb k (s_dvalues (get_scope st s))) (path st v)) as [a|] eqn:EM.
       { exfalso. apply P_Once.find_map_some in EM as (s & Hs & Hl).
-        destruct (ci_dvalues bt st (w_CI _ _ _ _ _ HW) s k a Hl) as (d' & e & slot & Hd' & Hh' & Hc' & _ & Hsl' & _).
+        destruct (ci_dvalues bt st (w_CI _ _ _ _ _ _ HW) s k a Hl) as (d' & e & slot & Hd' & Hh' & Hc' & _ & Hsl' & _).
         assert (Hin : In d' (decs_on_path st v k)).
         { apply (decs_on_path_In st r v k d' HR). split; [exact Hd'|]. split; [rewrite Hh'; exact Hs|].
           apply memb_key_In. rewrite dec_keys_dkeys. eapply dec_slot_In; eauto. }
         apply Hall in Hin. congruence. }
       pose proof (find_provider_spec st k (path st v)) as HFP.
       destruct (find_provider st (path st v) k) as [a|bsc ns|] eqn:EP.
-      + cbn [fst snd]. split; [apply (w_CI _ _ _ _ _ HW)|]. split; [apply NewOK_refl|].
-        intros args [= <-]. exists (ASingle a). split; [reflexivity|]. intros self _.
-        apply LPV; [apply Ext_refl|].
+      + (* a cached value *)
         destruct HFP as (pre & b0 & post & Hpath & Hpre & Hv).
-        eapply value_is_nearest; eauto. intros b' Hb'. apply Hpre. exact Hb'.
+        destruct (value_is_nearest st v k pre b0 post a HW Hk Hpath (fun b' Hb' => proj2 (Hpre b' Hb')) Hv)
+          as (n & e & Hn & Hcl & Hnp & Hs & Ha).
+        cbn [fst snd]. split; [apply (W_CD _ HW)|]. split; [apply NewOK_refl|]. split; [|split].
+        * intros args [= <-]. exists (ASingle a). split; [reflexivity|]. intros self _.
+          apply LPV; [apply Ext_refl|]. exists (node_sctor st n), e. auto.
+        * intros HN Hbad x _. destruct opt; [exact Hbad|]. cbn [leaf_bad] in Hbad. rewrite Hnp in Hbad.
+          rewrite (w_D _ _ _ _ _ _ HW HN n Hn Hbad) in Hcl. discriminate.
+        * intros _ e'; discriminate.
       + destruct HFP as (pre & post & Hpath & Hpre & Hv & Hns & Hne).
-        destruct (E_call_ctors ns st HW) as (W1 & E1 & N1 & C1).
+        destruct ns as [|n0 ns']; [congruence|].
+        assert (Hin0 : In n0 (providers_at st bsc k)) by (rewrite <- Hns; left; reflexivity).
+        destruct (prov_is_nearest st v k pre bsc post n0 HW Hk Hpath (fun b' Hb' => proj2 (Hpre b' Hb')) Hin0) as [Hone Hnp].
+        assert (Hnsone : n0 :: ns' = [n0]) by congruence.
+        destruct (E_call_ctors (n0 :: ns') st HW) as (W1 & E1 & N1 & C1 & D1c & D2c).
         { intros n Hn. rewrite Hns in Hn. eapply providers_at_in_range; eauto. }
-        destruct (call_ctors rec ns st) as [[|c e|a] st1]; cbn [fst snd] in *.
+        assert (DOOM : ND = true -> forall cr e, fst (call_ctors rec (n0 :: ns') st) = LFail cr e ->
+                   has_missingdeps e = true -> RDoomed r L0 (node_sctor st n0)).
+        { intros HN cr e He Hm. destruct (D2c HN cr e He Hm) as (n & Hn & Hdm). rewrite Hnsone in Hn.
+          destruct Hn as [<-|[]]. exact Hdm. }
+        destruct (call_ctors rec (n0 :: ns') st) as [[|c e|a] st1]; cbn [fst snd] in *.
         * destruct (alookup key_eqb k (s_values (get_scope st1 bsc))) as [a|] eqn:EA; cbn [fst snd].
-          2:{ split; [apply (w_CI _ _ _ _ _ W1)|]. split; [exact N1|]. intros args; discriminate. }
-          split; [apply (w_CI _ _ _ _ _ W1)|]. split; [exact N1|].
-          intros args [= <-]. exists (ASingle a). split; [reflexivity|]. intros self _.
-          apply LPV; [exact E1|].
-          apply (value_is_nearest st1 v k pre bsc post a W1 Hk).
-          -- rewrite (Ext_path _ _ v E1). exact Hpath.
-          -- intros b' Hb'. rewrite (Ext_providers_at _ _ b' k E1). apply Hpre. exact Hb'.
-          -- exact EA.
+          2:{ split; [apply (W_CD _ W1)|]. split; [exact N1|]. split; [intros args; discriminate|].
+              split; [intros _ _ x; discriminate|intros _ e; discriminate]. }
+          split; [apply (W_CD _ W1)|]. split; [exact N1|]. split; [|split].
+          -- intros args [= <-]. exists (ASingle a). split; [reflexivity|]. intros self _.
+             apply LPV; [exact E1|].
+             destruct (value_is_nearest st1 v k pre bsc post a W1 Hk) as (n & e & _ & _ & Hnp1 & Hs1 & Ha1).
+             ++ rewrite (Ext_path _ _ v E1). exact Hpath.
+             ++ intros b' Hb'. rewrite (Ext_providers_at _ _ b' k E1). apply Hpre. exact Hb'.
+             ++ exact EA.
+             ++ exists (node_sctor st1 n), e. auto.
+          -- intros HN Hbad x _. destruct opt; [exact Hbad|]. cbn [leaf_bad] in Hbad. rewrite Hnp in Hbad.
+             apply (D1c HN); [|reflexivity]. exists n0. split; [left; reflexivity|exact Hbad].
+          -- intros _ e'; discriminate.
         * destruct (opt && has_missingdeps e) eqn:EO; cbn [fst snd].
-          -- split; [apply (w_CI _ _ _ _ _ W1)|]. split; [exact N1|].
-             intros args [= <-]. exists (ASingle AZero). split; [reflexivity|]. intros self _.
-             apply LPZ; [exact E1|]. apply andb_true_iff in EO. tauto.
-          -- split; [apply (w_CI _ _ _ _ _ W1)|]. split; [exact N1|]. intros args; discriminate.
-        * split; [apply (w_CI _ _ _ _ _ W1)|]. split; [exact N1|]. intros args; discriminate.
-      + destruct opt; cbn [fst snd].
-        * split; [apply (w_CI _ _ _ _ _ HW)|]. split; [apply NewOK_refl|].
-          intros args [= <-]. exists (ASingle AZero). split; [reflexivity|]. intros self _.
-          apply LPZ; [apply Ext_refl|reflexivity].
-        * split; [apply (w_CI _ _ _ _ _ HW)|]. split; [apply NewOK_refl|]. intros args; discriminate.
+          -- apply andb_true_iff in EO as [Eopt Emd].
+             split; [apply (W_CD _ W1)|]. split; [exact N1|]. split; [|split].
+             ++ intros args [= <-]. exists (ASingle AZero). split; [reflexivity|]. intros self _.
+                apply LPZ; [exact E1|exact Eopt|].
+                intros c0 Hc0. rewrite Hnp in Hc0. injection Hc0 as <-.
+                destruct ND eqn:End; [right|left; reflexivity]. apply (DOOM eq_refl c e eq_refl Emd).
+             ++ intros _ Hbad. subst opt. destruct Hbad.
+             ++ intros _ e'; discriminate.
+          -- split; [apply (W_CD _ W1)|]. split; [exact N1|]. split; [intros args; discriminate|].
+             split; [intros _ _ x; discriminate|].
+             intros HN e' [= <-] Hm. rewrite has_missingdeps_wrap_single in Hm. rewrite Hm, andb_true_r in EO. subst opt.
+             cbn [leaf_bad]. rewrite Hnp. apply (DOOM HN c e eq_refl Hm).
+        * split; [apply (W_CD _ W1)|]. split; [exact N1|]. split; [intros args; discriminate|].
+          split; [intros _ _ x; discriminate|intros _ e; discriminate].
+      + (* no provider on the path *)
+        assert (Hnone : nearest_provider r v k = None).
+        { eapply nearest_provider_none; [exact HR|eapply SI_single_only; eauto; apply (w_SI _ _ _ _ _ _ HW)|].
+          apply find_provider_none. exact EP. }
+        destruct opt; cbn [fst snd].
+        * split; [apply (W_CD _ HW)|]. split; [apply NewOK_refl|]. split; [|split].
+          -- intros args [= <-]. exists (ASingle AZero). split; [reflexivity|]. intros self _.
+             apply LPZ; [apply Ext_refl|reflexivity|]. intros c0 Hc0. congruence.
+          -- intros _ [].
+          -- intros _ e; discriminate.
+        * split; [apply (W_CD _ HW)|]. split; [apply NewOK_refl|]. split; [intros args; discriminate|].
+          split; [intros _ _ x; discriminate|]. intros _ e [= <-] Hm. discriminate Hm.
   Qed.
 
   (* ---------- group leaves ---------- *)
@@ -2245,7 +2555,7 @@ Section EvalLevel.
 
   Lemma members_nodup : forall st L v k, W st -> NoDup (flat_map (members_of bt L k) (feeders r v k)).
   Proof.
-    intros st L v k HW. pose proof (w_R _ _ _ _ _ HW) as HR. pose proof (Wld_nodup _ _ _ _ _ HW) as Hnd.
+    intros st L v k HW. pose proof (w_R _ _ _ _ _ _ HW) as HR. pose proof (Wld_nodup _ _ _ _ _ _ HW) as Hnd.
     assert (Hfn : NoDup (map sc_fn (r_ctors r))).
     { rewrite (rr_ctors HR), map_map. cbn [sc_fn sctor_of]. eapply P_Once.NoDup_app_l. exact Hnd. }
     assert (Hfs : NoDup (map sc_fn (feeders r v k))).
@@ -2271,13 +2581,13 @@ Section EvalLevel.
     Permutation (flat_map (fun s => alookup_list key_eqb k (s_groups (get_scope st s))) (path st v))
                 (flat_map (members_of bt (LGs st) k) (feeders r v k)).
   Proof.
-    intros st v k HW Hk. pose proof (w_R _ _ _ _ _ HW) as HR.
+    intros st v k HW Hk. pose proof (w_R _ _ _ _ _ _ HW) as HR.
     eapply Permutation_trans.
-    { apply Permutation_flat_map_ext. intros s _. apply (ci_groups bt st (w_CI _ _ _ _ _ HW) s k). }
+    { apply Permutation_flat_map_ext. intros s _. apply (ci_groups bt st (w_CI _ _ _ _ _ _ HW) s k). }
     rewrite <- flat_map_flat_map. fold (providers_on_path st v k).
     rewrite <- (flat_map_map' _ _ _ (node_sctor st) (members_of bt (LGs st) k)).
-    apply Permutation_flat_map_l. apply feeders_perm; [exact HR|apply (Wld_TInv _ _ _ _ _ HW)|].
-    eapply SI_group_only; eauto. apply (w_SI _ _ _ _ _ HW).
+    apply Permutation_flat_map_l. apply feeders_perm; [exact HR|apply (Wld_TInv _ _ _ _ _ _ HW)|].
+    eapply SI_group_only; eauto. apply (w_SI _ _ _ _ _ _ HW).
   Qed.
 
   Lemma dg_none : forall st s k, W st ->
@@ -2285,8 +2595,8 @@ Section EvalLevel.
     alookup key_eqb k (s_dgroups (get_scope st s)) = None.
   Proof.
     intros st s k HW H. destruct (alookup key_eqb k (s_dgroups (get_scope st s))) as [l|] eqn:E; [|reflexivity].
-    exfalso. destruct (ci_dgroups bt st (w_CI _ _ _ _ _ HW) s k l E) as (d' & e & slot & Hd' & Hh' & Hc' & _ & Hsl' & _).
-    pose proof (dec_lookup_unique st r s k d' slot (w_R _ _ _ _ _ HW) Hd' Hh' Hsl') as HL.
+    exfalso. destruct (ci_dgroups bt st (w_CI _ _ _ _ _ _ HW) s k l E) as (d' & e & slot & Hd' & Hh' & Hc' & _ & Hsl' & _).
+    pose proof (dec_lookup_unique st r s k d' slot (w_R _ _ _ _ _ _ HW) Hd' Hh' Hsl') as HL.
     apply H in HL. congruence.
   Qed.
 
@@ -2297,15 +2607,15 @@ Section EvalLevel.
       Some (prod_atoms (d_fn (get_dec st x)) e (opt_default 0 (dec_slot k 0 (sig_rleaves (d_sig (get_dec st x)))))
               (nth_len (lens_of bt (d_fn (get_dec st x)) e) (opt_default 0 (dec_slot k 0 (sig_rleaves (d_sig (get_dec st x))))))).
   Proof.
-    intros st s k x HW Hk HL Hc. pose proof (w_R _ _ _ _ _ HW) as HR.
+    intros st s k x HW Hk HL Hc. pose proof (w_R _ _ _ _ _ _ HW) as HR.
     pose proof (proj1 (rr_decorators HR s k x) HL) as (Hx & Hh & Hmem).
     apply memb_key_In in Hmem. rewrite dec_keys_dkeys in Hmem.
-    pose proof (si_dsig NO st (w_SI _ _ _ _ _ HW) x) as Hwf. unfold wf_dsig2 in Hwf.
+    pose proof (si_dsig NO st (w_SI _ _ _ _ _ _ HW) x) as Hwf. unfold wf_dsig2 in Hwf.
     apply andb_true_iff in Hwf as [Hwf _]. unfold wf_sig2 in Hwf. apply andb_true_iff in Hwf as [_ Hwf].
     destruct (dkeys_group_leaf _ k Hwf Hmem Hk) as (ks & fl & Hleaf).
-    pose proof (ci_dgpres bt st (w_CI _ _ _ _ _ HW) x k ks fl Hx Hc Hleaf) as Hne. rewrite Hh in Hne.
+    pose proof (ci_dgpres bt st (w_CI _ _ _ _ _ _ HW) x k ks fl Hx Hc Hleaf) as Hne. rewrite Hh in Hne.
     destruct (alookup key_eqb k (s_dgroups (get_scope st s))) as [l|] eqn:E; [|congruence].
-    destruct (ci_dgroups bt st (w_CI _ _ _ _ _ HW) s k l E) as (d' & e & slot & Hd' & Hh' & Hc' & Hs' & Hsl' & ->).
+    destruct (ci_dgroups bt st (w_CI _ _ _ _ _ _ HW) s k l E) as (d' & e & slot & Hd' & Hh' & Hc' & Hs' & Hsl' & ->).
     pose proof (dec_lookup_unique st r s k d' slot HR Hd' Hh' Hsl') as HL'.
     assert (d' = x) by congruence. subst d'.
     exists e. split; [exact Hs'|]. rewrite Hsl'. reflexivity.
@@ -2322,18 +2632,23 @@ Section EvalLevel.
   Qed.
 
   Lemma E_build_group : forall v k soft st, W st -> k_group k <> 0 ->
-    CI bt (snd (build_group rec v k soft st)) /\ NOK st (snd (build_group rec v k soft st)) /\
+    CD (snd (build_group rec v k soft st)) /\ NOK st (snd (build_group rec v k soft st)) /\
     (forall args, fst (build_group rec v k soft st) = Done args ->
        exists x, args = [x] /\
-         forall self, self_ok st self -> LPs bt r log0 (snd (build_group rec v k soft st)) self v (LGroup k soft) x).
+         forall self, self_ok st self -> LPs bt r log0 ND (snd (build_group rec v k soft st)) self v (LGroup k soft) x) /\
+    (ND = true -> leaf_bad r L0 v (LGroup k soft) -> forall x, fst (build_group rec v k soft st) <> Done x) /\
+    (ND = true -> forall e, fst (build_group rec v k soft st) = Fail e -> has_missingdeps e = true ->
+       leaf_bad r L0 v (LGroup k soft)).
   Proof.
     intros v k soft st HW Hk. unfold build_group.
-    pose proof (w_R _ _ _ _ _ HW) as HR.
-    pose proof (Wld_nodup _ _ _ _ _ HW) as Hnd.
-    destruct (E_call_group_decs k (rev (path st v)) st HW) as (W1 & E1 & N1 & C1).
+    pose proof (w_R _ _ _ _ _ _ HW) as HR.
+    pose proof (Wld_nodup _ _ _ _ _ _ HW) as Hnd.
+    destruct (E_call_group_decs k (rev (path st v)) st HW) as (W1 & E1 & N1 & C1 & NDL).
     destruct (call_group_decs rec k (rev (path st v)) st) as [[|c0 e0|a0] st1]; cbn [fst snd] in *.
-    2:{ split; [apply (w_CI _ _ _ _ _ W1)|]. split; [exact N1|]. intros args; discriminate. }
-    2:{ split; [apply (w_CI _ _ _ _ _ W1)|]. split; [exact N1|]. intros args; discriminate. }
+    2:{ split; [apply (W_CD _ W1)|]. split; [exact N1|]. split; [intros args; discriminate|].
+        split; [intros _ _ x; discriminate|intros HN; discriminate (NDL HN)]. }
+    2:{ split; [apply (W_CD _ W1)|]. split; [exact N1|]. split; [intros args; discriminate|].
+        split; [intros _ _ x; discriminate|intros _ e; discriminate]. }
     assert (Hdecs : forall x, In x (decs_on_path st v k) ->
                d_state (get_dec st x) = DOnStack \/ d_state (get_dec st1 x) = DCalled).
     { intros x Hx. apply in_decs_on_path in Hx as (s & Hs & HL). apply (C1 eq_refl s x); [|exact HL].
@@ -2391,7 +2706,11 @@ Section EvalLevel.
             apply Hpre. exact Hy. }
     rewrite Hpath1.
     destruct (find_map (fun s => alookup key_eqb k (s_dgroups (get_scope st1 s))) (path st v)) as [l|] eqn:EM.
-    - cbn [fst snd]. split; [apply (w_CI _ _ _ _ _ W1)|]. split; [exact N1|].
+    - cbn [fst snd]. split; [apply (W_CD _ W1)|]. split; [exact N1|].
+      split; [|split; [|intros _ e; discriminate]].
+      2:{ intros HN _ x _. apply P_Once.find_map_some in EM as (s & _ & Hl).
+          destruct (ci_dgroups bt st1 (w_CI _ _ _ _ _ _ W1) s k l Hl) as (d' & _ & _ & Hd' & _).
+          rewrite (w_nodec _ _ _ _ _ _ W1 HN) in Hd'. cbn in Hd'. lia. }
       intros args [= <-]. exists (ASlice l). split; [reflexivity|]. intros self Hself.
       unfold LPs. cbn [LPk]. unfold LP_group.
       pose proof (HEAD st1 self (Ext_refl st1) Hself) as HH.
@@ -2406,7 +2725,8 @@ Section EvalLevel.
         destruct (decorators_on_path r v k self) as [|h t]; [exact I|].
         destruct HH as [HH|(e & _ & Hf)]; [exact HH|]. discriminate. }
       destruct soft.
-      + cbn [fst snd]. split; [apply (w_CI _ _ _ _ _ W1)|]. split; [exact N1|].
+      + cbn [fst snd]. split; [apply (W_CD _ W1)|]. split; [exact N1|].
+        split; [|split; [intros _ []|intros _ e; discriminate]].
         intros args [= <-]. eexists. split; [reflexivity|]. intros self Hself.
         unfold LPs. cbn [LPk]. unfold LP_group.
         pose proof (NODEC st1 self (Ext_refl st1) Hself) as HH.
@@ -2417,34 +2737,83 @@ Section EvalLevel.
         * intros a Ha. eapply Permutation_in; eauto.
         * intros a Ha. eapply Permutation_in; [apply Permutation_sym; exact HP|].
           apply in_flat_map in Ha as (c & Hc & Ha). apply in_flat_map. exists c. split; [exact Hc|].
-          eapply members_of_mono; [|exact Ha]. intros f e. apply sfx_succ. apply (w_sfx _ _ _ _ _ W1).
+          eapply members_of_mono; [|exact Ha]. intros f e. apply sfx_succ. apply (w_sfx _ _ _ _ _ _ W1).
         * eapply Permutation_NoDup; [apply Permutation_sym; exact HP|]. eapply members_nodup; eauto.
-      + destruct (E_call_ctors (providers_on_path st1 v k) st1 W1) as (W2 & E2 & N2 & C2).
-        { intros n Hn. apply (providers_on_path_In st1 r v k n (w_R _ _ _ _ _ W1)) in Hn. tauto. }
+      + assert (FEED : forall c', In c' (feeders r v k) -> exists n, In n (providers_on_path st1 v k) /\ c' = node_sctor st1 n).
+        { intros c' Hc'. apply (feeders_In st1 r v k c' (w_R _ _ _ _ _ _ W1) (Wld_TInv _ _ _ _ _ _ W1)) in Hc'; [exact Hc'|].
+          apply (SI_group_only NO st1 r k (w_R _ _ _ _ _ _ W1) (w_SI _ _ _ _ _ _ W1) Hk). }
+        assert (FEED' : forall n, In n (providers_on_path st1 v k) -> In (node_sctor st1 n) (feeders r v k)).
+        { intros n Hn. apply (feeders_In st1 r v k _ (w_R _ _ _ _ _ _ W1) (Wld_TInv _ _ _ _ _ _ W1)); [|eauto].
+          apply (SI_group_only NO st1 r k (w_R _ _ _ _ _ _ W1) (w_SI _ _ _ _ _ _ W1) Hk). }
+        destruct (E_call_ctors (providers_on_path st1 v k) st1 W1) as (W2 & E2 & N2 & C2 & D1c & D2c).
+        { intros n Hn. apply (providers_on_path_In st1 r v k n (w_R _ _ _ _ _ _ W1)) in Hn. tauto. }
         destruct (call_ctors rec (providers_on_path st1 v k) st1) as [[|c e|a] st2]; cbn [fst snd] in *.
-        2:{ split; [apply (w_CI _ _ _ _ _ W2)|]. split; [eapply NewOK_trans; eauto|]. intros args; discriminate. }
-        2:{ split; [apply (w_CI _ _ _ _ _ W2)|]. split; [eapply NewOK_trans; eauto|]. intros args; discriminate. }
-        split; [apply (w_CI _ _ _ _ _ W2)|]. split; [eapply NewOK_trans; eauto|].
+        2:{ split; [apply (W_CD _ W2)|]. split; [eapply NewOK_trans; eauto|]. split; [intros args; discriminate|].
+            split; [intros _ _ x; discriminate|].
+            intros HN e' [= <-] Hm. rewrite has_missingdeps_wrap_group in Hm.
+            destruct (D2c HN c e eq_refl Hm) as (n & Hn & Hdm). cbn [leaf_bad]. exists (node_sctor st1 n). split; [apply FEED'; exact Hn|exact Hdm]. }
+        2:{ split; [apply (W_CD _ W2)|]. split; [eapply NewOK_trans; eauto|]. split; [intros args; discriminate|].
+            split; [intros _ _ x; discriminate|intros _ e; discriminate]. }
+        split; [apply (W_CD _ W2)|]. split; [eapply NewOK_trans; eauto|].
+        split; [|split; [|intros _ e; discriminate]].
+        2:{ intros HN (c' & Hc' & Hdm) x _. destruct (FEED c' Hc') as (n & Hn & ->).
+            apply (D1c HN); [|reflexivity]. exists n. split; assumption. }
         intros args [= <-]. eexists. split; [reflexivity|]. intros self Hself.
         unfold LPs. cbn [LPk]. unfold LP_group.
         pose proof (NODEC st2 self E2 Hself) as HH.
         destruct (decorators_on_path r v k self) as [|h t]; [|right; exact HH].
         cbv zeta. split.
-        * intros c Hc. pose proof (w_R _ _ _ _ _ W2) as HR2.
-          apply (feeders_In st2 r v k c HR2 (Wld_TInv _ _ _ _ _ W2)) in Hc.
-          2:{ eapply SI_group_only; eauto. apply (w_SI _ _ _ _ _ W2). }
+        * intros c Hc. pose proof (w_R _ _ _ _ _ _ W2) as HR2.
+          apply (feeders_In st2 r v k c HR2 (Wld_TInv _ _ _ _ _ _ W2)) in Hc.
+          2:{ eapply SI_group_only; eauto. apply (w_SI _ _ _ _ _ _ W2). }
           destruct Hc as (n & Hn & ->).
           assert (Hn2 : n < length (st_nodes st2)) by (apply (providers_on_path_In st2 r v k n HR2) in Hn; tauto).
-          unfold node_sctor. cbn [sc_fn sctor_of]. apply (called_succ st2 n (w_once _ _ _ _ _ W2) Hn2).
+          unfold node_sctor. cbn [sc_fn sctor_of]. apply (called_succ st2 n (w_once _ _ _ _ _ _ W2) Hn2).
           apply C2; [reflexivity|]. rewrite <- (Ext_providers_on_path _ _ v k E2). exact Hn.
         * apply groups_perm; assumption.
   Qed.
 
+
   (* ---------- frames ---------- *)
+
+  Lemma DInv_transfer : forall st st', DInv st ->
+    length (st_nodes st') = length (st_nodes st) ->
+    (forall n, sctor_of (get_node st' n) = sctor_of (get_node st n)) ->
+    (forall n, c_called (get_node st' n) = true ->
+       c_called (get_node st n) = true \/ (ND = true -> ~ RDoomed r L0 (node_sctor st n))) ->
+    DInv st'.
+  Proof.
+    intros st st' HD LN HS HC HN n Hn Hd. unfold node_sctor in Hd. rewrite HS in Hd. rewrite LN in Hn.
+    destruct (c_called (get_node st' n)) eqn:E; [|reflexivity].
+    destruct (HC n E) as [H|H].
+    - rewrite (HD HN n Hn Hd) in H. discriminate.
+    - exfalso. apply (H HN). exact Hd.
+  Qed.
+
+  Lemma DInv_deq : forall st st', deq st st' -> DInv st -> DInv st'.
+  Proof.
+    intros st st' D HD. apply (DInv_transfer st st' HD).
+    - destruct D as (_ & -> & _). reflexivity.
+    - intros n. rewrite (deq_node n D). reflexivity.
+    - intros n H. left. rewrite (deq_node n D) in H. exact H.
+  Qed.
+
+  Lemma DInv_set_onstack : forall st n x, DInv st -> DInv (set_onstack st n x).
+  Proof.
+    intros st n x HD. apply (DInv_transfer st _ HD).
+    - apply P_Once.nodes_len_upd_node.
+    - intros m. apply sctor_set_onstack.
+    - intros m H. left. rewrite called_set_onstack in H. exact H.
+  Qed.
+
+  Lemma DInv_set_dstate : forall st d x, DInv st -> DInv (set_dstate st d x).
+  Proof.
+    intros st d x HD. apply (DInv_transfer st _ HD); [reflexivity|reflexivity|]. intros m H. left. exact H.
+  Qed.
 
   Lemma W_set_onstack : forall st n x, W st -> W (set_onstack st n x).
   Proof.
-    intros st n x [HG HR Hrefs Honce HSI HUI HCI Hsfx].
+    intros st n x [HG HR Hrefs Honce HSI HUI HCI Hsfx Hnd HD HNDr].
     assert (HP : pres st (set_onstack st n x)) by apply pres_set_onstack.
     constructor.
     - destruct HG as (HS & HK & HV). destruct (pres_static _ _ HP HS HK) as [HS0 HK0].
@@ -2457,12 +2826,15 @@ Section EvalLevel.
     - eapply UI_pres; eauto.
     - eapply CI_set_onstack; eauto.
     - exact Hsfx.
+    - exact Hnd.
+    - apply DInv_set_onstack. exact HD.
+    - exact HNDr.
   Qed.
 
   Lemma W_set_dstate : forall st d x, W st -> d < length (st_decs st) -> x <> DCalled ->
     d_state (get_dec st d) <> DCalled -> W (set_dstate st d x).
   Proof.
-    intros st d x [HG HR Hrefs Honce HSI HUI HCI Hsfx] Hd Hx Hnc.
+    intros st d x [HG HR Hrefs Honce HSI HUI HCI Hsfx Hnd HD HNDr] Hd Hx Hnc.
     assert (HP : pres st (set_dstate st d x)) by apply pres_set_dstate.
     constructor.
     - destruct HG as (HS & HK & HV). destruct (pres_static _ _ HP HS HK) as [HS0 HK0].
@@ -2486,9 +2858,12 @@ Section EvalLevel.
     - eapply UI_pres; eauto.
     - eapply CI_set_dstate; eauto.
     - exact Hsfx.
+    - intros HN. exfalso. rewrite (Hnd HN) in Hd. cbn in Hd. lia.
+    - apply DInv_set_dstate. exact HD.
+    - exact HNDr.
   Qed.
 
-  Lemma NOK_event : forall x y z ev, NOK x y -> EvOK bt r log0 NO (st_log y) ev -> st_log z = ev :: st_log y -> NOK x z.
+  Lemma NOK_event : forall x y z ev, NOK x y -> EvOK bt r log0 NO ND (st_log y) ev -> st_log z = ev :: st_log y -> NOK x z.
   Proof.
     intros x y z ev (n1 & E1 & A1) Hev Ez. exists (ev :: n1). split; [rewrite Ez, E1; reflexivity|].
     cbn [evs_all]. rewrite <- E1. split; assumption.
@@ -2509,51 +2884,112 @@ Section EvalLevel.
                (bump_count f (set_clock st (st_clock st + du f (get_count st f))%N))).
   Proof. intros. unfold run_fn. rewrite Hdry. reflexivity. Qed.
 
+  (* a doomed constructor has no success in a world *)
+  Lemma doomed_nosucc : forall st, W st -> ND = true ->
+    forall c, In c (r_ctors r) -> RDoomed r L0 c -> succ_of (LG (st_log st)) (sc_fn c) = None.
+  Proof.
+    intros st HW HN c Hnp Hd.
+    rewrite (rr_ctors (w_R _ _ _ _ _ _ HW)) in Hnp. apply in_map_iff in Hnp as (cn & <- & Hin).
+    apply (In_nth _ _ dummy_cnode) in Hin as (n & Hn & <-). fold (get_node st n) in *.
+    pose proof (w_D _ _ _ _ _ _ HW HN n Hn Hd) as Hc.
+    destruct (succ_of (LG (st_log st)) (sc_fn (sctor_of (get_node st n)))) eqn:E; [|reflexivity].
+    exfalso. assert (c_called (get_node st n) = true).
+    { apply (called_succ st n (w_once _ _ _ _ _ _ HW) Hn). unfold LGs. cbn [sc_fn sctor_of] in E. congruence. }
+    congruence.
+  Qed.
+
+  Lemma W_ChkEnv : forall st, W st -> ChkEnv r L0 ND (LG (st_log st)) (onstk st).
+  Proof.
+    intros st HW. constructor.
+    - intros d Hd. apply (onstk_nosucc st d (w_once _ _ _ _ _ _ HW) Hd).
+    - intros d (x & Hx & _). pose proof (w_nodec _ _ _ _ _ _ HW) as Hnd.
+      destruct ND; [|reflexivity]. rewrite (Hnd eq_refl) in Hx. cbn in Hx. lia.
+    - apply (w_ND _ _ _ _ _ _ HW).
+    - rewrite (rr_ctors (w_R _ _ _ _ _ _ HW)), map_map. cbn [sc_fn sctor_of].
+      eapply P_Once.NoDup_app_l. apply (Wld_nodup _ _ _ _ _ _ HW).
+    - intros HN. apply (doomed_nosucc st HW HN).
+  Qed.
+
   (* the event of a constructor / decorator / invoked function executing after its
      leaves have been built satisfies the checker *)
   Lemma exec_event_ok : forall st1 (cn : consumer) built args,
     W st1 ->
     (NO = true -> noopt_sig (cn_sig cn) = true) ->
     args = place (sig_order (cn_sig cn)) built ->
-    Forall2 (LPs bt r log0 st1 (cn_self cn) (cn_view cn)) (sig_build_seq (cn_sig cn)) built ->
-    forall c, In c (chk_args bt r (LG log0) (LG (st_log st1)) cn (sig_leaves (cn_sig cn)) args) -> Allowed NO c.
+    Forall2 (LPs bt r log0 ND st1 (cn_self cn) (cn_view cn)) (sig_build_seq (cn_sig cn)) built ->
+    forall c, In c (chk_args bt r (LG log0) (LG (st_log st1)) cn (sig_leaves (cn_sig cn)) args) -> Allowed NO ND c.
   Proof.
     intros st1 cn built args W1 Hno -> HF.
-    apply (chk_args_LP bt r (LG log0) NO (LG (st_log st1)) (onstk st1)).
-    - intros d Hd. apply (onstk_nosucc st1 d (w_once _ _ _ _ _ W1) Hd).
+    apply (chk_args_LP bt r (LG log0) NO ND (LG (st_log st1)) (onstk st1)).
+    - apply W_ChkEnv. exact W1.
     - intros HN l Hl. eapply noopt_leaves; eauto.
     - apply place_correct; [apply sig_order_perm|exact HF].
+  Qed.
+
+  (* not yet called: no success at the start of the operation either *)
+  Lemma notcalled_L0 : forall st n, W st -> n < length (st_nodes st) -> c_called (get_node st n) = false ->
+    succ_of L0 (c_fn (get_node st n)) = None.
+  Proof.
+    intros st n HW Hn Hc. destruct (succ_of L0 (c_fn (get_node st n))) as [e|] eqn:E; [|reflexivity].
+    exfalso. apply (sfx_succ log0 st _ _ (w_sfx _ _ _ _ _ _ HW)) in E.
+    assert (c_called (get_node st n) = true) by (apply (called_succ st n (w_once _ _ _ _ _ _ HW) Hn); congruence).
+    congruence.
   Qed.
 
   (* ---------- constructorNode.Call ---------- *)
 
   Lemma E_call_ctor : forall n st, W st -> n < length (st_nodes st) ->
-    CI bt (snd (call_ctor cfg b du rec n st)) /\ NOK st (snd (call_ctor cfg b du rec n st)).
+    CD (snd (call_ctor cfg b du rec n st)) /\ NOK st (snd (call_ctor cfg b du rec n st)) /\
+    (ND = true -> RDoomed r L0 (node_sctor st n) -> forall x, fst (call_ctor cfg b du rec n st) <> Done x) /\
+    (ND = true -> forall e, fst (call_ctor cfg b du rec n st) = Fail e -> has_missingdeps e = true ->
+       RDoomed r L0 (node_sctor st n)).
   Proof.
     intros n st HW Hn. unfold call_ctor.
     destruct (c_called (get_node st n)) eqn:Ec.
-    { cbn [snd]. split; [apply (w_CI _ _ _ _ _ HW)|apply NewOK_refl]. }
+    { cbn [fst snd]. split; [apply (W_CD _ HW)|]. split; [apply NewOK_refl|]. split; [|intros _ e; discriminate].
+      intros HN Hd x _. rewrite (w_D _ _ _ _ _ _ HW HN n Hn Hd) in Ec. discriminate. }
     destruct (c_onstack (get_node st n)) eqn:Eo.
-    { cbn [snd]. split; [apply (w_CI _ _ _ _ _ HW)|apply NewOK_refl]. }
+    { cbn [fst snd]. split; [apply (W_CD _ HW)|]. split; [apply NewOK_refl|]. split; [intros _ _ x; discriminate|].
+      intros _ e [= <-] Hm. discriminate Hm. }
+    pose proof (notcalled_L0 st n HW Hn Ec) as HL0.
     set (c := get_node st n) in *.
     set (st0 := set_onstack st n true).
     assert (W0 : W st0) by (apply W_set_onstack; exact HW).
     assert (S0 : sctor_of (get_node st0 n) = sctor_of c) by apply sctor_set_onstack.
-    destruct (shallow_missing st0 (c_orig c) (sig_leaves (c_sig c))) as [|k0 ks].
-    2:{ cbn [snd]. split; [apply (w_CI _ _ _ _ _ (W_set_onstack st0 n false W0))|apply NewOK_eqlog; reflexivity]. }
+    assert (Hwfc : wf_sig2 (c_sig c) = true) by apply (si_nsig NO st (w_SI _ _ _ _ _ _ HW) n).
+    (* a bad leaf of the signature dooms the constructor *)
+    assert (DOOMI : forall l, In l (sig_build_seq (c_sig c)) -> leaf_bad r L0 (c_orig c) l -> RDoomed r L0 (node_sctor st n)).
+    { intros l Hl Hb. apply build_seq_In in Hl. apply (RDoomed_intro r L0 (node_sctor st n) l); assumption. }
+    destruct (shallow_missing st0 (c_orig c) (sig_leaves (c_sig c))) as [|k0 ks] eqn:ESM.
+    2:{ cbn [fst snd]. split; [apply (W_CD _ (W_set_onstack st0 n false W0))|].
+        split; [apply NewOK_eqlog; reflexivity|]. split; [intros _ _ x; discriminate|].
+        intros HN e _ _.
+        assert (Hk0 : In k0 (shallow_missing st0 (c_orig c) (sig_leaves (c_sig c)))) by (rewrite ESM; left; reflexivity).
+        apply shallow_missing_In in Hk0 as [Hleaf Hnone].
+        apply (rd_none r L0 (node_sctor st n) k0 HL0 Hleaf).
+        pose proof (wf_sig2_leaves _ _ Hwfc Hleaf) as Hg. cbn in Hg. apply Nat.eqb_eq in Hg.
+        eapply (nearest_provider_none st0); [apply (w_R _ _ _ _ _ _ W0)| |apply providers_on_path_nil; exact Hnone].
+        eapply SI_single_only; [apply (w_R _ _ _ _ _ _ W0)|apply (w_SI _ _ _ _ _ _ W0)|exact Hg]. }
     assert (Hp : tpre2 (TLeaves (c_orig c) (sig_build_seq (c_sig c))) st0).
-    { cbn. apply build_seq_ok2. pose proof (si_nsig NO st (w_SI _ _ _ _ _ HW) n) as H. fold c in H.
-      unfold wf_sig2 in H. apply andb_true_iff in H. tauto. }
-    destruct (W_rec _ st0 W0 Hp) as (W1 & E1 & N1 & _ & Po1). unfold Post in Po1.
+    { cbn. apply build_seq_ok2. unfold wf_sig2 in Hwfc. apply andb_true_iff in Hwfc. tauto. }
+    destruct (W_rec _ st0 W0 Hp) as (W1 & E1 & N1 & _ & Po1 & B1 & B2). unfold Post in Po1. cbn [bad] in B1, B2.
     destruct (rec (TLeaves (c_orig c) (sig_build_seq (c_sig c))) st0) as [[built|e1|a1] st1]; cbn [fst snd] in *.
-    2:{ split; [apply (w_CI _ _ _ _ _ (W_set_onstack st1 n false W1))|].
-        eapply NewOK_eqlog_r with (y := st1); [|reflexivity]. eapply NewOK_eqlog_l with (y := st0); [reflexivity|exact N1]. }
-    2:{ split; [apply (w_CI _ _ _ _ _ (W_set_onstack st1 n false W1))|].
-        eapply NewOK_eqlog_r with (y := st1); [|reflexivity]. eapply NewOK_eqlog_l with (y := st0); [reflexivity|exact N1]. }
+    2:{ split; [apply (W_CD _ (W_set_onstack st1 n false W1))|].
+        split; [eapply NewOK_eqlog_r with (y := st1); [|reflexivity]; eapply NewOK_eqlog_l with (y := st0); [reflexivity|exact N1]|].
+        split; [intros _ _ x; discriminate|].
+        intros HN e [= <-] Hm. rewrite has_missingdeps_wrap_args in Hm.
+        destruct (B2 HN e1 eq_refl Hm) as (l & Hl & Hb). exact (DOOMI l Hl Hb). }
+    2:{ split; [apply (W_CD _ (W_set_onstack st1 n false W1))|].
+        split; [eapply NewOK_eqlog_r with (y := st1); [|reflexivity]; eapply NewOK_eqlog_l with (y := st0); [reflexivity|exact N1]|].
+        split; [intros _ _ x; discriminate|intros _ e; discriminate]. }
+    (* the leaves have been built: the constructor is not doomed *)
+    assert (NOTDOOM : ND = true -> ~ RDoomed r L0 (node_sctor st n)).
+    { intros HN Hd. destruct (RDoomed_inv r L0 _ Hd) as (_ & l & Hl & Hb).
+      apply (B1 HN) with (x := built); [|reflexivity]. exists l. split; [apply build_seq_In; exact Hl|exact Hb]. }
     assert (NST : NOK st st1) by (eapply NewOK_eqlog_l with (y := st0); [reflexivity|exact N1]).
     rewrite run_fn_eq.
     set (f := c_fn c). set (e := get_count st1 f). set (args := place (sig_order (c_sig c)) built).
-    pose proof (w_R _ _ _ _ _ W1) as HR1. pose proof (Wld_nodup _ _ _ _ _ W1) as Hnd1.
+    pose proof (w_R _ _ _ _ _ _ W1) as HR1. pose proof (Wld_nodup _ _ _ _ _ _ W1) as Hnd1.
     assert (Hn1 : n < length (st_nodes st1)).
     { destruct (Ext_lens _ _ E1) as (-> & _). unfold st0, set_onstack. rewrite P_Once.nodes_len_upd_node. exact Hn. }
     assert (S1 : sctor_of (get_node st1 n) = sctor_of c) by (rewrite (Ext_sctor _ _ n E1); exact S0).
@@ -2566,27 +3002,28 @@ Section EvalLevel.
       apply B; [unfold st0; apply onstack_set_same; exact Hn|unfold st0; rewrite called_set_onstack; exact Ec]. }
     assert (Hsucc : succ_of (LGs st1) (c_fn (get_node st1 n)) = None).
     { destruct (succ_of (LGs st1) (c_fn (get_node st1 n))) eqn:E; [|reflexivity].
-      exfalso. assert (c_called (get_node st1 n) = true) by (apply (called_succ st1 n (w_once _ _ _ _ _ W1) Hn1); congruence).
+      exfalso. assert (c_called (get_node st1 n) = true) by (apply (called_succ st1 n (w_once _ _ _ _ _ _ W1) Hn1); congruence).
       congruence. }
-    assert (EV : forall o, EvOK bt r log0 NO (st_log st1) (EExec f e RoleCtor args o)).
+    assert (EV : forall o, EvOK bt r log0 NO ND (st_log st1) (EExec f e RoleCtor args o)).
     { intros o. split; [discriminate|]. intros c0 Hc0. cbn [chk_exec_event find_consumer] in Hc0.
       pose proof (find_ctor_reg st1 r n HR1 Hnd1 Hn1) as Hfind. rewrite Efn, S1 in Hfind. rewrite Hfind in Hc0.
       cbn [cn_sig sc_sig sc_orig sctor_of] in Hc0.
       refine (exec_event_ok st1 (mkCons (c_sig c) (c_orig c) None) built args W1 _ eq_refl _ c0 Hc0).
-      - intros HN. pose proof (si_nopt NO st (w_SI _ _ _ _ _ HW) n HN) as H. exact H.
+      - intros HN. pose proof (si_nopt NO st (w_SI _ _ _ _ _ _ HW) n HN) as H. exact H.
       - cbn [cn_sig cn_view cn_self]. apply Po1. exact I. }
     set (st2o := fun o => add_event (EExec f e RoleCtor args o)
                     (bump_count f (set_clock st1 (st_clock st1 + du f e)%N))).
     assert (FAILEXIT : forall has cl o, (forall lens, o <> OOk lens) ->
-              CI bt (set_onstack (callback has f cl (st_clock st1) (st2o o)) n false) /\
+              CD (set_onstack (callback has f cl (st_clock st1) (st2o o)) n false) /\
               NOK st (set_onstack (callback has f cl (st_clock st1) (st2o o)) n false)).
     { intros has cl o Ho.
       assert (D2 : deq st1 (callback has f cl (st_clock st1) (st2o o))).
       { eapply deq_trans; [|apply deq_callback]. repeat split. }
-      split.
+      split; [split|].
       - eapply CI_set_onstack; [eapply RegRel_pres; [apply deq_pres; exact D2|exact HR1]|].
-        eapply CI_deq; [exact HR1|exact D2| |apply (w_CI _ _ _ _ _ W1)].
+        eapply CI_deq; [exact HR1|exact D2| |apply (w_CI _ _ _ _ _ _ W1)].
         intros g. unfold LGs. rewrite P_Once.log_callback, LG_cb_opt. apply succ_of_exec_fail. exact Ho.
+      - apply DInv_set_onstack. eapply DInv_deq; [exact D2|exact (w_D _ _ _ _ _ _ W1)].
       - eapply NewOK_eqlog_r with (y := callback has f cl (st_clock st1) (st2o o)); [|reflexivity].
         eapply NOK_cb_opt; [|apply P_Once.log_callback].
         eapply NOK_event; [exact NST|apply (EV o)|reflexivity]. }
@@ -2598,49 +3035,69 @@ Section EvalLevel.
                    (set_called (upd_scope (st2o (OOk lens)) (c_home c)
                       (commit_results false f e lens 0 (sig_rleaves (c_sig c)))) n)) n false).
       assert (Hhome : c_home c < length (st_scopes st1)).
-      { rewrite <- Ehome. destruct (Wld_SInv _ _ _ _ _ W1) as [_ HB]. apply (bi_node_home HB n Hn1). }
+      { rewrite <- Ehome. destruct (Wld_SInv _ _ _ _ _ _ W1) as [_ HB]. apply (bi_node_home HB n Hn1). }
       assert (GS : forall s, get_scope Y s = get_scope (upd_scope (st2o (OOk lens)) (c_home c)
                       (commit_results false f e lens 0 (sig_rleaves (c_sig c)))) s).
       { intros s. unfold Y, set_onstack, set_called. rewrite P_Once.get_scope_upd_node, P_Once.get_scope_callback, P_Once.get_scope_upd_node. reflexivity. }
-      split.
+      assert (LNY : length (st_nodes Y) = length (st_nodes st1)).
+      { unfold Y, set_onstack, set_called. rewrite P_Once.nodes_len_upd_node, P_Once.nodes_callback, P_Once.nodes_len_upd_node. reflexivity. }
+      assert (SCY : forall m, sctor_of (get_node Y m) = sctor_of (get_node st1 m)).
+      { intros m. unfold Y. rewrite sctor_set_onstack, P_Once.get_node_callback, sctor_set_called. reflexivity. }
+      assert (COY : forall m, m <> n -> c_called (get_node Y m) = c_called (get_node st1 m)).
+      { intros m Hm. unfold Y. rewrite called_set_onstack, P_Once.get_node_callback, called_set_other by exact Hm. reflexivity. }
+      split; [split|split; [|split; [intros HN Hd; destruct (NOTDOOM HN Hd)|intros _ e'; discriminate]]].
       + apply (CI_commit_ctor bt st1 Y r n e lens HR1 Hnd1 Hn1).
-        * apply (si_nsig NO st1 (w_SI _ _ _ _ _ W1) n).
-        * apply (si_nnodup NO st1 (w_SI _ _ _ _ _ W1) n).
+        * apply (si_nsig NO st1 (w_SI _ _ _ _ _ _ W1) n).
+        * apply (si_nnodup NO st1 (w_SI _ _ _ _ _ _ W1) n).
         * exact C1.
         * exact Hsucc.
         * rewrite Efn. unfold LGs, Y, set_onstack, set_called.
           rewrite P_Once.log_upd_node, P_Once.log_callback, LG_cb_opt, P_Once.log_upd_node, P_Once.log_upd_scope.
           unfold st2o. rewrite P_Once.log_add_event. apply LG_exec_ok.
         * rewrite Efn. apply lens_of_beh. exact Eb.
-        * unfold Y, set_onstack, set_called. rewrite P_Once.nodes_len_upd_node, P_Once.nodes_callback, P_Once.nodes_len_upd_node. reflexivity.
+        * exact LNY.
         * unfold Y, set_onstack, set_called. rewrite P_Once.decs_upd_node, P_Once.decs_callback, P_Once.decs_upd_node. reflexivity.
-        * intros m. unfold Y. rewrite sctor_set_onstack, P_Once.get_node_callback, sctor_set_called. reflexivity.
+        * exact SCY.
         * unfold Y. rewrite called_set_onstack, P_Once.get_node_callback. apply called_set_same. exact Hn1.
-        * intros m Hm. unfold Y. rewrite called_set_onstack, P_Once.get_node_callback, called_set_other by exact Hm. reflexivity.
+        * exact COY.
         * intros d. unfold Y, set_onstack, set_called. rewrite P_Once.get_dec_upd_node, P_Once.get_dec_callback, P_Once.get_dec_upd_node. reflexivity.
         * intros s Hs. rewrite Ehome in Hs. rewrite GS, P_Once.get_scope_upd_other by (intros E; apply Hs; symmetry; exact E). reflexivity.
         * rewrite Ehome, Efn, Esig, GS, P_Once.get_scope_upd_same by exact Hhome. reflexivity.
         * intros s. rewrite GS.
           destruct (P_Once.get_scope_upd_cases (st2o (OOk lens)) (c_home c) (commit_results false f e lens 0 (sig_rleaves (c_sig c))) s) as [->|[-> ->]]; [reflexivity|].
           exact (proj1 (P_Once.providers_commit_results false f e lens (sig_rleaves (c_sig c)) 0 (get_scope st1 (c_home c)))).
-        * apply (w_CI _ _ _ _ _ W1).
+        * apply (w_CI _ _ _ _ _ _ W1).
+      + apply (DInv_transfer st1 Y (w_D _ _ _ _ _ _ W1) LNY SCY).
+        intros m Hm. destruct (Nat.eq_dec m n) as [->|Hne]; [|left; rewrite <- (COY m Hne); exact Hm].
+        right. intros HN Hd. apply (NOTDOOM HN). unfold node_sctor in *. rewrite S1 in Hd. exact Hd.
       + eapply NewOK_eqlog_r with (y := callback (c_cb c) f ENone (st_clock st1) (st2o (OOk lens))).
         * eapply NOK_cb_opt; [|apply P_Once.log_callback].
           eapply NOK_event; [exact NST|apply (EV (OOk lens))|reflexivity].
         * unfold Y, set_onstack, set_called.
           rewrite P_Once.log_upd_node, !P_Once.log_callback, P_Once.log_upd_node, P_Once.log_upd_scope. reflexivity.
-    - apply FAILEXIT. discriminate.
-    - destruct (cfg_recover cfg); cbn [fst snd]; apply FAILEXIT; discriminate.
+    - destruct (FAILEXIT (c_cb c) (EUser f e) OErr) as [A B]; [discriminate|].
+      split; [exact A|]. split; [exact B|]. split; [intros _ _ x; discriminate|].
+      intros _ e' [= <-] Hm. discriminate Hm.
+    - destruct (cfg_recover cfg); cbn [fst snd].
+      + destruct (FAILEXIT (c_cb c) (EPanicE f e) OPanic) as [A B]; [discriminate|].
+        split; [exact A|]. split; [exact B|]. split; [intros _ _ x; discriminate|].
+        intros _ e' [= <-] Hm. discriminate Hm.
+      + destruct (FAILEXIT (c_cb c) ENone OPanic) as [A B]; [discriminate|].
+        split; [exact A|]. split; [exact B|]. split; [intros _ _ x; discriminate|intros _ e'; discriminate].
   Qed.
 
   (* ---------- decoratorNode.Call ---------- *)
 
   Lemma E_call_dec : forall d st, W st -> d < length (st_decs st) -> d_state (get_dec st d) <> DOnStack ->
-    CI bt (snd (call_dec cfg b du rec d st)) /\ NOK st (snd (call_dec cfg b du rec d st)).
+    CD (snd (call_dec cfg b du rec d st)) /\ NOK st (snd (call_dec cfg b du rec d st)) /\ (ND = true -> False).
   Proof.
-    intros d st HW Hd Hns. unfold call_dec.
+    intros d st HW Hd Hns.
+    assert (NDF : ND = true -> False).
+    { intros HN. rewrite (w_nodec _ _ _ _ _ _ HW HN) in Hd. cbn in Hd. lia. }
+    cut (CD (snd (call_dec cfg b du rec d st)) /\ NOK st (snd (call_dec cfg b du rec d st))); [tauto|].
+    unfold call_dec.
     destruct (dstate_eqb (d_state (get_dec st d)) DCalled) eqn:Ec.
-    { cbn [snd]. split; [apply (w_CI _ _ _ _ _ HW)|apply NewOK_refl]. }
+    { cbn [snd]. split; [apply (W_CD _ HW)|apply NewOK_refl]. }
     apply P_Once.dstate_eqb_false in Ec.
     set (dn := get_dec st d) in *.
     set (st0 := set_dstate st d DOnStack).
@@ -2649,12 +3106,12 @@ Section EvalLevel.
     assert (S0 : sdec_of (get_dec st0 d) = sdec_of dn) by apply sdec_set_dstate.
     assert (O0 : d_state (get_dec st0 d) = DOnStack) by (unfold st0; apply dstate_set_same; exact Hd).
     assert (POP : forall Y, W Y -> length (st_decs Y) = length (st_decs st) -> d_state (get_dec Y d) = DOnStack ->
-              CI bt (set_dstate Y d DReady)).
-    { intros Y WY LY OY. refine (w_CI _ _ _ _ _ (W_set_dstate Y d DReady WY _ _ _)); [lia|discriminate|congruence]. }
+              CD (set_dstate Y d DReady)).
+    { intros Y WY LY OY. refine (W_CD _ (W_set_dstate Y d DReady WY _ _ _)); [lia|discriminate|congruence]. }
     destruct (shallow_missing st0 (d_home dn) (sig_leaves (d_sig dn))) as [|k0 ks].
     2:{ cbn [snd]. split; [apply POP; auto|apply NewOK_eqlog; reflexivity]. }
     assert (Hp : tpre2 (TLeaves (d_home dn) (sig_build_seq (d_sig dn))) st0).
-    { cbn. apply build_seq_ok2. pose proof (si_dsig NO st (w_SI _ _ _ _ _ HW) d) as H. fold dn in H.
+    { cbn. apply build_seq_ok2. pose proof (si_dsig NO st (w_SI _ _ _ _ _ _ HW) d) as H. fold dn in H.
       unfold wf_dsig2 in H. apply andb_true_iff in H as [H _]. unfold wf_sig2 in H. apply andb_true_iff in H. tauto. }
     destruct (W_rec _ st0 W0 Hp) as (W1 & E1 & N1 & _ & Po1). unfold Post in Po1.
     destruct (rec (TLeaves (d_home dn) (sig_build_seq (d_sig dn))) st0) as [[built|e1|a1] st1]; cbn [fst snd] in *.
@@ -2665,7 +3122,7 @@ Section EvalLevel.
     assert (NST : NOK st st1) by (eapply NewOK_eqlog_l with (y := st0); [reflexivity|exact N1]).
     rewrite run_fn_eq.
     set (f := d_fn dn). set (e := get_count st1 f). set (args := place (sig_order (d_sig dn)) built).
-    pose proof (w_R _ _ _ _ _ W1) as HR1. pose proof (Wld_nodup _ _ _ _ _ W1) as Hnd1.
+    pose proof (w_R _ _ _ _ _ _ W1) as HR1. pose proof (Wld_nodup _ _ _ _ _ _ W1) as Hnd1.
     assert (Hd1 : d < length (st_decs st1)) by (destruct (Ext_lens _ _ E1) as (_ & -> & _); lia).
     assert (S1 : sdec_of (get_dec st1 d) = sdec_of dn) by (rewrite (Ext_sdec _ _ d E1); exact S0).
     assert (Efn : d_fn (get_dec st1 d) = f) by exact (f_equal sd_fn S1).
@@ -2674,32 +3131,33 @@ Section EvalLevel.
     assert (O1 : d_state (get_dec st1 d) = DOnStack) by (apply (Ext_donstack _ _ d E1); exact O0).
     assert (Hsucc : succ_of (LGs st1) (d_fn (get_dec st1 d)) = None).
     { destruct (succ_of (LGs st1) (d_fn (get_dec st1 d))) eqn:E; [|reflexivity].
-      exfalso. assert (d_state (get_dec st1 d) = DCalled) by (apply (dcalled_succ st1 d (w_once _ _ _ _ _ W1) Hd1); congruence).
+      exfalso. assert (d_state (get_dec st1 d) = DCalled) by (apply (dcalled_succ st1 d (w_once _ _ _ _ _ _ W1) Hd1); congruence).
       congruence. }
-    assert (EV : forall o, EvOK bt r log0 NO (st_log st1) (EExec f e RoleDec args o)).
+    assert (EV : forall o, EvOK bt r log0 NO ND (st_log st1) (EExec f e RoleDec args o)).
     { intros o. split; [discriminate|]. intros c0 Hc0. cbn [chk_exec_event find_consumer] in Hc0.
       pose proof (find_dec_reg st1 r d HR1 Hnd1 Hd1) as Hfind. rewrite Efn, S1 in Hfind. rewrite Hfind in Hc0.
       cbn [cn_sig sd_sig sd_home sdec_of] in Hc0.
       refine (exec_event_ok st1 (mkCons (d_sig dn) (d_home dn) (Some f)) built args W1 _ eq_refl _ c0 Hc0).
-      - intros HN. pose proof (si_dopt NO st (w_SI _ _ _ _ _ HW) d HN) as H. exact H.
+      - intros HN. pose proof (si_dopt NO st (w_SI _ _ _ _ _ _ HW) d HN) as H. exact H.
       - cbn [cn_sig cn_view cn_self]. apply Po1. exists d. split; [lia|]. split; [exact (f_equal sd_fn S0)|exact O0]. }
     set (st2o := fun o => add_event (EExec f e RoleDec args o)
                     (bump_count f (set_clock st1 (st_clock st1 + du f e)%N))).
     assert (D2 : forall o, deq st1 (st2o o)) by (intros o; repeat split).
     assert (FAILEXIT : forall has cl o, (forall lens, o <> OOk lens) ->
-              CI bt (callback has f cl (st_clock st1) (set_dstate (st2o o) d DReady)) /\
+              CD (callback has f cl (st_clock st1) (set_dstate (st2o o) d DReady)) /\
               NOK st (callback has f cl (st_clock st1) (set_dstate (st2o o) d DReady))).
     { intros has cl o Ho.
       assert (R2 : RegRel (st2o o) r) by (eapply RegRel_pres; [apply deq_pres; apply D2|exact HR1]).
       assert (C2 : CI bt (st2o o)).
-      { eapply CI_deq; [exact HR1|apply D2| |apply (w_CI _ _ _ _ _ W1)].
+      { eapply CI_deq; [exact HR1|apply D2| |apply (w_CI _ _ _ _ _ _ W1)].
         intros g. unfold LGs, st2o. rewrite P_Once.log_add_event. apply succ_of_exec_fail. exact Ho. }
       assert (C3 : CI bt (set_dstate (st2o o) d DReady)).
       { eapply CI_set_dstate; [exact R2|discriminate| |exact C2]. rewrite (deq_dec d (D2 o)). congruence. }
-      split.
+      split; [split|].
       - eapply CI_deq; [|apply deq_callback| |exact C3].
         + eapply RegRel_pres; [apply pres_set_dstate|exact R2].
         + intros g. unfold LGs. rewrite P_Once.log_callback, LG_cb_opt. reflexivity.
+      - eapply DInv_deq; [apply deq_callback|]. apply DInv_set_dstate. eapply DInv_deq; [apply D2|exact (w_D _ _ _ _ _ _ W1)].
       - eapply NOK_cb_opt; [|apply P_Once.log_callback].
         eapply NOK_event; [exact NST|apply (EV o)|reflexivity]. }
     fold e. fold (st2o (b f e)).
@@ -2710,13 +3168,17 @@ Section EvalLevel.
                   (set_dstate (upd_scope (st2o (OOk lens)) (d_home dn)
                      (commit_decorated false f e lens 0 (sig_rleaves (d_sig dn)))) d DCalled)).
       assert (Hhome : d_home dn < length (st_scopes st1)).
-      { rewrite <- Ehome. destruct (Wld_SInv _ _ _ _ _ W1) as [_ HB]. apply (bi_dec_home HB d Hd1). }
+      { rewrite <- Ehome. destruct (Wld_SInv _ _ _ _ _ _ W1) as [_ HB]. apply (bi_dec_home HB d Hd1). }
       assert (GS : forall s, get_scope Y s = get_scope (upd_scope (st2o (OOk lens)) (d_home dn)
                       (commit_decorated false f e lens 0 (sig_rleaves (d_sig dn)))) s).
       { intros s. unfold Y, set_dstate. rewrite P_Once.get_scope_callback, P_Once.get_scope_upd_dec. reflexivity. }
-      split.
+      split; [split|].
+      2:{ apply (DInv_transfer st1 Y (w_D _ _ _ _ _ _ W1)).
+          - unfold Y, set_dstate. rewrite P_Once.nodes_callback, P_Once.nodes_upd_dec. reflexivity.
+          - intros m. unfold Y, set_dstate. rewrite P_Once.get_node_callback, P_Once.get_node_upd_dec. reflexivity.
+          - intros m H. left. unfold Y, set_dstate in H. rewrite P_Once.get_node_callback, P_Once.get_node_upd_dec in H. exact H. }
       + apply (CI_commit_dec bt st1 Y r d e lens HR1 Hnd1 Hd1).
-        * apply (si_dsig NO st1 (w_SI _ _ _ _ _ W1) d).
+        * apply (si_dsig NO st1 (w_SI _ _ _ _ _ _ W1) d).
         * congruence.
         * exact Hsucc.
         * rewrite Efn. unfold LGs, Y, set_dstate.
@@ -2734,7 +3196,7 @@ Section EvalLevel.
         * intros s. rewrite GS.
           destruct (P_Once.get_scope_upd_cases (st2o (OOk lens)) (d_home dn) (commit_decorated false f e lens 0 (sig_rleaves (d_sig dn))) s) as [->|[-> ->]]; [reflexivity|].
           exact (proj1 (P_Once.providers_commit_decorated false f e lens (sig_rleaves (d_sig dn)) 0 (get_scope st1 (d_home dn)))).
-        * apply (w_CI _ _ _ _ _ W1).
+        * apply (w_CI _ _ _ _ _ _ W1).
       + eapply NOK_cb_opt with (y := st2o (OOk lens)).
         * eapply NOK_event; [exact NST|apply (EV (OOk lens))|reflexivity].
         * unfold Y, set_dstate. rewrite P_Once.log_callback, P_Once.log_upd_dec, P_Once.log_upd_scope. reflexivity.
@@ -2746,37 +3208,37 @@ Section EvalLevel.
 
   Lemma E_evalF : forall t st, MyP t st (evalF cfg b du rec t st).
   Proof.
-    intros t st HW Hp. destruct t as [v [k opt|k soft]|v ls|n|d]; cbn [evalF tpre2 pleaf_ok2] in *.
-    - apply Nat.eqb_eq in Hp. destruct (E_build_single v k opt st HW Hp) as (A & B & C).
-      split; [exact A|]. split; [exact B|]. unfold Post.
+    intros t st HW Hp. destruct t as [v [k opt|k soft]|v ls|n|d]; cbn [evalF tpre2 pleaf_ok2 bad] in *.
+    - apply Nat.eqb_eq in Hp. destruct (E_build_single v k opt st HW Hp) as (A & B & C & D1 & D2).
+      split; [exact A|]. split; [exact B|]. split; [|split; [exact D1|exact D2]]. unfold Post.
       destruct (fst (build_single rec v k opt st)) as [args|e|a] eqn:E; [|exact I|exact I].
       apply C. reflexivity.
-    - apply negb_true_iff, Nat.eqb_neq in Hp. destruct (E_build_group v k soft st HW Hp) as (A & B & C).
-      split; [exact A|]. split; [exact B|]. unfold Post.
+    - apply negb_true_iff, Nat.eqb_neq in Hp. destruct (E_build_group v k soft st HW Hp) as (A & B & C & D1 & D2).
+      split; [exact A|]. split; [exact B|]. split; [|split; [exact D1|exact D2]]. unfold Post.
       destruct (fst (build_group rec v k soft st)) as [args|e|a] eqn:E; [|exact I|exact I].
       apply C. reflexivity.
-    - destruct (E_build_list v ls st HW Hp) as (A & _ & B & C).
-      split; [apply (w_CI _ _ _ _ _ A)|]. split; [exact B|]. unfold Post.
+    - destruct (E_build_list v ls st HW Hp) as (A & _ & B & C & D1 & D2).
+      split; [apply (W_CD _ A)|]. split; [exact B|]. split; [|split; [exact D1|exact D2]]. unfold Post.
       destruct (fst (build_list rec v ls st)) as [args|e|a] eqn:E; [|exact I|exact I].
       apply C. reflexivity.
-    - destruct (E_call_ctor n st HW Hp) as [A B]. split; [exact A|]. split; [exact B|].
-      unfold Post. destruct (fst _); exact I.
-    - destruct Hp as [Hd Hs]. destruct (E_call_dec d st HW Hd Hs) as [A B]. split; [exact A|]. split; [exact B|].
-      unfold Post. destruct (fst _); exact I.
+    - destruct (E_call_ctor n st HW Hp) as (A & B & D1 & D2). split; [exact A|]. split; [exact B|].
+      split; [|split; [exact D1|exact D2]]. unfold Post. destruct (fst _); exact I.
+    - destruct Hp as [Hd Hs]. destruct (E_call_dec d st HW Hd Hs) as (A & B & NDF). split; [exact A|]. split; [exact B|].
+      split; [|split; [intros _ []|intros HN; destruct (NDF HN)]]. unfold Post. destruct (fst _); exact I.
   Qed.
 End EvalLevel.
 
 (* the evaluator, any fuel *)
-Theorem eval_MyP : forall cfg bt du, cfg_dry cfg = false -> forall r log0 NO fuel t st,
-  MyP bt r log0 NO t st (eval cfg (beh_of bt) du fuel t st).
+Theorem eval_MyP : forall cfg bt du, cfg_dry cfg = false -> forall r log0 NO ND fuel t st,
+  MyP bt r log0 NO ND t st (eval cfg (beh_of bt) du fuel t st).
 Proof.
-  intros cfg bt du Hdry r log0 NO fuel. induction fuel as [|f IHf]; intros t st.
-  - cbn [eval]. intros HW Hp. cbn [snd]. split; [apply (w_CI _ _ _ _ _ HW)|]. split; [apply NewOK_refl|].
-    unfold Post. cbn [fst]. exact I.
-  - cbn [eval]. apply (E_evalF cfg bt du Hdry r log0 NO f IHf).
+  intros cfg bt du Hdry r log0 NO ND fuel. induction fuel as [|f IHf]; intros t st.
+  - cbn [eval]. intros HW Hp. cbn [fst snd]. split; [split; [apply (w_CI _ _ _ _ _ _ HW)|exact (w_D _ _ _ _ _ _ HW)]|].
+    split; [apply NewOK_refl|]. split; [exact I|]. split; [intros _ _ x; discriminate|intros _ e; discriminate].
+  - cbn [eval]. apply (E_evalF cfg bt du Hdry r log0 NO ND f IHf).
 Qed.
 
-(* RH: operations, runs, the checker *)
+(* ---- operations, runs, the checker *)
 
 (* ================================================================== *)
 (* Part 10 : what the duplicate check of Provide guarantees             *)
@@ -2876,14 +3338,15 @@ Section Assembly.
   Variable du : dur.
   Hypothesis Hdry : cfg_dry cfg = false.
   Variable NO : bool.
+  Variable NDh : bool.       (* the whole history has no Decorate *)
 
   Notation b := (beh_of bt).
 
   (* events of constructors and decorators do not depend on the operation *)
-  Lemma EvOK_op : forall r log0 o lb ev, EvOK bt r log0 NO lb ev ->
-    forall c, In c (chk_exec_event bt r (LG log0) o (LG lb) ev) -> Allowed NO c.
+  Lemma EvOK_op : forall r log0 nd o lb ev, EvOK bt r log0 NO nd lb ev ->
+    forall c, In c (chk_exec_event bt r (LG log0) o (LG lb) ev) -> Allowed NO nd c.
   Proof.
-    intros r log0 o lb [f e rl args oc|f c t] H c0 Hc; [|destruct Hc].
+    intros r log0 nd o lb [f e rl args oc|f c t] H c0 Hc; [|destruct Hc].
     destruct H as [Hrl H]. apply H. destruct rl; [exact Hc|exact Hc|congruence].
   Qed.
 
@@ -2901,19 +3364,19 @@ Section Assembly.
     - rewrite IH. unfold log_of_events. cbn [flat_map]. rewrite <- !app_assoc. reflexivity.
   Qed.
 
-  Lemma walk_events_ok : forall (Q : list lentry -> event -> list nat) new old,
-    evs_all (fun lb ev => forall c, In c (Q (LG lb) ev) -> Allowed NO c) new old ->
-    forall c, In c (walk_events Q (LG old) (rev new)) -> Allowed NO c.
+  Lemma walk_events_ok : forall (A : nat -> Prop) (Q : list lentry -> event -> list nat) new old,
+    evs_all (fun lb ev => forall c, In c (Q (LG lb) ev) -> A c) new old ->
+    forall c, In c (walk_events Q (LG old) (rev new)) -> A c.
   Proof.
-    intros Q new old; induction new as [|ev t IH]; intros H c Hc; [destruct Hc|].
-    cbn [evs_all] in H. destruct H as [A B]. cbn [rev] in Hc. rewrite walk_events_app in Hc.
+    intros A Q new old; induction new as [|ev t IH]; intros H c Hc; [destruct Hc|].
+    cbn [evs_all] in H. destruct H as [HA HB]. cbn [rev] in Hc. rewrite walk_events_app in Hc.
     apply in_app_or in Hc as [Hc|Hc]; [apply IH; assumption|].
-    cbn [walk_events] in Hc. rewrite app_nil_r in Hc. apply (A c).
+    cbn [walk_events] in Hc. rewrite app_nil_r in Hc. apply (HA c).
     rewrite LG_app. unfold LG at 2. exact Hc.
   Qed.
 
   Definition Qop (r : registry) (st : state) (o : op) (lb : list event) (ev : event) : Prop :=
-    forall c, In c (chk_exec_event bt r (LG (st_log st)) o (LG lb) ev) -> Allowed NO c.
+    forall c, In c (chk_exec_event bt r (LG (st_log st)) o (LG lb) ev) -> Allowed NO (is_nil (r_decs r)) c.
 
   Lemma invoke_analysis : forall st s p r,
     P_Term.RI st -> P_Once.good st -> P_Once.fresh st (ii_fn p) ->
@@ -2923,7 +3386,7 @@ Section Assembly.
     exists new, st_log (snd (invoke cfg b du st s p)) = new ++ st_log st /\
                 evs_all (Qop r st (OInvoke s p)) new (st_log st).
   Proof.
-    intros st s p r HRI Hgood Hfresh HR HSI HUI HCI Hleaves Hnoopt.
+    intros st s p r HRI Hgood Hfresh HR HSI HUI HCI Hleaves Hnoopt. set (nd := is_nil (r_decs r)).
     destruct (P_Once.invoke_cases cfg b du st s p) as [[_ H]|(st1 & Hst1 & H)].
     { rewrite H. split; [exact HCI|]. exists []. split; [reflexivity|exact I]. }
     rewrite H. clear H.
@@ -2940,26 +3403,33 @@ Section Assembly.
       - intros b0. destruct Hst1 as [->| ->]; [reflexivity|].
         destruct (P_Once.get_scope_upd_cases st s (sc_set_verified true) b0) as [->|[-> ->]]; reflexivity. }
     destruct T1 as (SI1 & UI1 & CI1).
-    assert (W1 : Wld bt r (st_log st) NO st1).
+    assert (W1 : Wld bt r (st_log st) NO nd st1).
     { constructor; auto.
       - destruct RI1 as (A & B & C & _). split; [exact A|split; [exact B|exact C]].
       - destruct Hst1 as [->| ->]; [exact HR|]. eapply RegRel_skel; [|exact HR]. symmetry. apply skel_upd_verified.
       - destruct Hst1 as [->| ->]; [exact Hrefs|]. eapply P_Once.refs_ok_frame; [|exact Hrefs].
         apply P_Once.frame_upd_scope. intros c; split; reflexivity.
       - unfold P_Once.inv_once. rewrite N1, D1, L1. exact Honce.
-      - exists []. rewrite L1. reflexivity. }
+      - exists []. rewrite L1. reflexivity.
+      - intros HN. rewrite D1. unfold nd in HN. rewrite (rr_decs HR) in HN.
+        destruct (st_decs st); [reflexivity|discriminate HN].
+      - intros _ n Hn Hd. destruct (RDoomed_inv _ _ _ Hd) as [Hs _].
+        unfold node_sctor in Hs. cbn [sc_fn sctor_of] in Hs.
+        destruct (c_called (get_node st1 n)) eqn:Ec; [|reflexivity]. exfalso.
+        assert (Honce1 : P_Once.inv_once st1) by (unfold P_Once.inv_once; rewrite N1, D1, L1; exact Honce).
+        apply (called_succ st1 n Honce1 Hn) in Ec. apply Ec. unfold LGs. rewrite L1. exact Hs. }
     assert (Hp : tpre2 (TLeaves s (sig_build_seq (ii_sig p))) st1) by (cbn; apply build_seq_ok2; exact Hleaves).
-    destruct (W_rec cfg bt du Hdry r (st_log st) NO (eval_fuel st1)
-                (eval_MyP cfg bt du Hdry r (st_log st) NO (eval_fuel st1)) _ st1 W1 Hp) as (W2 & E2 & N2 & _ & Po2).
+    destruct (W_rec cfg bt du Hdry r (st_log st) NO nd (eval_fuel st1)
+                (eval_MyP cfg bt du Hdry r (st_log st) NO nd (eval_fuel st1)) _ st1 W1 Hp) as (W2 & E2 & N2 & _ & Po2 & _).
     unfold Post in Po2.
-    assert (TOQ : forall new, evs_all (EvOK bt r (st_log st) NO) new (st_log st) ->
+    assert (TOQ : forall new, evs_all (EvOK bt r (st_log st) NO nd) new (st_log st) ->
                               evs_all (Qop r st (OInvoke s p)) new (st_log st)).
     { intros new. apply evs_all_impl. intros lb ev Hev. unfold Qop. apply EvOK_op. exact Hev. }
     destruct (eval cfg b du (eval_fuel st1) (TLeaves s (sig_build_seq (ii_sig p))) st1) as [[built|e|a] st2];
       cbn [fst snd] in *.
-    2:{ split; [apply (w_CI _ _ _ _ _ W2)|]. destruct N2 as (new & En & An). rewrite L1 in *.
+    2:{ split; [apply (w_CI _ _ _ _ _ _ W2)|]. destruct N2 as (new & En & An). rewrite L1 in *.
         exists new. split; [exact En|apply TOQ; exact An]. }
-    2:{ split; [apply (w_CI _ _ _ _ _ W2)|]. destruct N2 as (new & En & An). rewrite L1 in *.
+    2:{ split; [apply (w_CI _ _ _ _ _ _ W2)|]. destruct N2 as (new & En & An). rewrite L1 in *.
         exists new. split; [exact En|apply TOQ; exact An]. }
     cbv zeta. rewrite (run_fn_eq cfg bt du Hdry).
     set (f := ii_fn p). set (e := get_count st2 f). set (args := place (sig_order (ii_sig p)) built).
@@ -2977,19 +3447,19 @@ Section Assembly.
     split.
     - (* CI after the invoked function ran *)
       eapply (CI_deq' bt st2 st3).
-      + intros b0 k n Hn. eapply prov_range; [apply (Wld_SInv _ _ _ _ _ W2)|exact Hn].
+      + intros b0 k n Hn. eapply prov_range; [apply (Wld_SInv _ _ _ _ _ _ W2)|exact Hn].
       + repeat split.
       + intros g Hg. unfold LGs. change (st_log st3) with (EExec f e RoleInv args (b f e) :: st_log st2). apply succ_of_exec_other.
         intros ->. destruct Hfresh as [Hf _]. apply Hf.
         destruct E2 as (_ & _ & F2 & _). rewrite (P_Once.frame_fnsl _ _ F2) in Hg.
         unfold P_Once.fnsl in *. rewrite N1, D1 in Hg. exact Hg.
-      + apply (w_CI _ _ _ _ _ W2).
+      + apply (w_CI _ _ _ _ _ _ W2).
     - exists (EExec f e RoleInv args (b f e) :: new). split.
       + change (st_log st3) with (EExec f e RoleInv args (b f e) :: st_log st2). rewrite En. reflexivity.
       + cbn [evs_all]. split; [|apply TOQ; exact An].
         unfold Qop. intros c Hc. cbn [chk_exec_event find_consumer] in Hc. fold f in Hc. rewrite Nat.eqb_refl in Hc.
         cbn [cn_sig] in Hc. rewrite <- En in Hc.
-        refine (exec_event_ok bt r (st_log st) NO st2 (mkCons (ii_sig p) s None) built args W2 _ eq_refl _ c Hc).
+        refine (exec_event_ok bt r (st_log st) NO nd st2 (mkCons (ii_sig p) s None) built args W2 _ eq_refl _ c Hc).
         * exact Hnoopt.
         * cbn [cn_sig cn_view cn_self]. apply Po2. exact I.
   Qed.
@@ -3104,10 +3574,13 @@ Section Assembly.
   (* ---------- the invariant of reachable states ---------- *)
 
   Definition hopt (h : history) : Prop := NO = true -> has_opt h = false.
+  Definition hdec (h : history) : Prop := NDh = true -> has_dec h = false.
+
+  Definition GAllowed (c : nat) : Prop := c = 112 \/ c = 132 \/ (c = 120 /\ NO = false /\ NDh = false).
 
   Definition MH (st : state) (h : history) : Prop :=
     P_Once.GH st h /\ P_Term.TH st h /\ SI NO st /\ UI st /\ CI bt st /\
-    wf_strict h = true /\ hopt h /\ exists r, RegRel st r.
+    wf_strict h = true /\ hopt h /\ (exists r, RegRel st r) /\ hdec h /\ (NDh = true -> st_decs st = []).
 
   Lemma MH_wf : forall st o h, MH st (o :: h) -> SInv st /\ op_ok (length (st_scopes st)) o = true.
   Proof.
@@ -3124,7 +3597,7 @@ Section Assembly.
   Lemma MH_step : forall st o h, MH st (o :: h) -> MH (snd (step cfg b du st o)) h.
   Proof.
     intros st o h HM. pose proof (MH_wf st o h HM) as [HS Hok].
-    destruct HM as (HG & HT & HSI & HUI & HCI & Hws & Hho & r & HR).
+    destruct HM as (HG & HT & HSI & HUI & HCI & Hws & Hho & (r & HR) & Hhd & Hnodec).
     cbn [wf_strict forallb] in Hws. apply andb_true_iff in Hws as [Hso Hws].
     destruct (hopt_op o h Hho) as [Hno Hho'].
     assert (HG' := P_Once.GH_step cfg b du Hdry st o h HG).
@@ -3157,18 +3630,28 @@ Section Assembly.
       - auto. }
     destruct KEY as (A & B & C).
     split; [exact HG'|]. split; [exact HT'|]. split; [exact A|]. split; [exact B|]. split; [exact C|].
-    split; [exact Hws|]. split; [exact Hho'|]. eexists. exact HR'.
+    split; [exact Hws|]. split; [exact Hho'|]. split; [eexists; exact HR'|].
+    assert (Hhd' : hdec h /\ (NDh = true -> is_decorate o = false)).
+    { unfold hdec in *. cbn [has_dec existsb] in Hhd. split; intros HN; specialize (Hhd HN); apply orb_false_iff in Hhd; tauto. }
+    destruct Hhd' as [Hhd' Hnd]. split; [exact Hhd'|].
+    intros HN. specialize (Hnd HN). specialize (Hnodec HN).
+    destruct o as [p|s p|s p|s p|k s f]; cbn [step snd is_decorate] in *; try discriminate.
+    - destruct (P_Once.new_scope_spec st p) as (_ & D & _). rewrite D. exact Hnodec.
+    - destruct (P_Once.provide_spec cfg st s p) as ((D & _) & _). rewrite D. exact Hnodec.
+    - pose proof (invoke_skel cfg b du st s p) as Esk. apply skel_eq_fields in Esk. destruct Esk.
+      apply length_zero_iff_nil. rewrite sf_dlen, Hnodec. reflexivity.
+    - exact Hnodec.
   Qed.
 
   Lemma MH_init : forall h, wf_scopes h = true -> wf_keys h = true -> wf_strict h = true ->
-    P_Once.wf_fns h = true -> hopt h -> MH init_state h.
+    P_Once.wf_fns h = true -> hopt h -> hdec h -> MH init_state h.
   Proof.
-    intros h Hs Hk Hst Hf Ho.
+    intros h Hs Hk Hst Hf Ho Hhd.
     assert (GN : forall n, get_node init_state n = dummy_cnode) by (intros [|n]; reflexivity).
     assert (GD : forall d, get_dec init_state d = dummy_dnode) by (intros [|d]; reflexivity).
     assert (GS : forall i, get_scope init_state i = empty_scope None) by (intros [|[|i]]; reflexivity).
     split; [apply P_Once.GH_init; exact Hf|]. split; [split; [apply RI_init|split; assumption]|].
-    split; [|split; [|split; [|split; [exact Hst|split; [exact Ho|exists reg0; apply RegRel_init]]]]].
+    split; [|split; [|split; [|split; [exact Hst|split; [exact Ho|split; [exists reg0; apply RegRel_init|split; [exact Hhd|reflexivity]]]]]]].
     - constructor; intros x; rewrite ?GN, ?GD; try reflexivity; constructor.
     - intros b0 k n1 n2 _. unfold providers_at. rewrite GS. intros [].
     - constructor.
@@ -3183,14 +3666,14 @@ Section Assembly.
 
   Lemma MH_obligation : forall st o h r new, MH st (o :: h) -> RegRel st r ->
     st_log (snd (step cfg b du st o)) = new ++ st_log st ->
-    forall c, In c (walk_events (chk_exec_event bt r (LG (st_log st)) o) (LG (st_log st)) (rev new)) -> Allowed NO c.
+    forall c, In c (walk_events (chk_exec_event bt r (LG (st_log st)) o) (LG (st_log st)) (rev new)) -> GAllowed c.
   Proof.
     intros st o h r new HM HR L.
-    destruct HM as (HG & HT & HSI & HUI & HCI & Hws & Hho & _).
+    destruct HM as (HG & HT & HSI & HUI & HCI & Hws & Hho & _ & _ & Hnodec).
     cbn [wf_strict forallb] in Hws. apply andb_true_iff in Hws as [Hso _].
     destruct (hopt_op o h Hho) as [Hno _].
     assert (NIL : st_log (snd (step cfg b du st o)) = st_log st ->
-                  forall c, In c (walk_events (chk_exec_event bt r (LG (st_log st)) o) (LG (st_log st)) (rev new)) -> Allowed NO c).
+                  forall c, In c (walk_events (chk_exec_event bt r (LG (st_log st)) o) (LG (st_log st)) (rev new)) -> GAllowed c).
     { intros E. rewrite E in L. assert (new = []) by (apply (app_inv_tail (st_log st)); exact (eq_sym L)).
       subst new. intros c []. }
     destruct o as [p|s p|s p|s p|k s f]; cbn [step snd op_strict op_sig] in *.
@@ -3200,8 +3683,36 @@ Section Assembly.
     - destruct HG as (Hgood & _ & Hfr). destruct HT as (HRI & _).
       destruct (invoke_analysis st s p r HRI Hgood (Hfr _ (or_introl eq_refl)) HR HSI HUI HCI Hso Hno) as [_ (new' & En & An)].
       assert (new' = new) by (rewrite L in En; apply app_inv_tail in En; congruence). subst new'.
-      apply walk_events_ok. exact An.
+      intros c Hc. pose proof (walk_events_ok (Allowed NO (is_nil (r_decs r))) _ new (st_log st) An c Hc) as HA.
+      assert (HNd : is_nil (r_decs r) = false -> NDh = false).
+      { intros Hnil. destruct NDh eqn:E; [|reflexivity]. rewrite (rr_decs HR), (Hnodec eq_refl) in Hnil. discriminate Hnil. }
+      destruct HA as [[-> _]|[[-> _]|(-> & H1 & H2)]]; [left; reflexivity|right; left; reflexivity|].
+      right; right. auto.
     - apply NIL. reflexivity.
+  Qed.
+
+  (* when the whole history is decorator-free nothing at all is reported *)
+  Lemma MH_obligation_nodec : forall st o h r new, MH st (o :: h) -> RegRel st r ->
+    st_log (snd (step cfg b du st o)) = new ++ st_log st ->
+    forall c, In c (walk_events (chk_exec_event bt r (LG (st_log st)) o) (LG (st_log st)) (rev new)) ->
+    NDh = true -> False.
+  Proof.
+    intros st o h r new HM HR L c Hc HN.
+    destruct (MH_obligation st o h r new HM HR L c Hc) as [->|[->|(_ & _ & H)]]; [| |congruence].
+    all: destruct HM as (HG & HT & HSI & HUI & HCI & Hws & Hho & _ & _ & Hnodec).
+    all: cbn [wf_strict forallb] in Hws; apply andb_true_iff in Hws as [Hso _].
+    all: destruct (hopt_op o h Hho) as [Hno _].
+    all: destruct o as [p|s p|s p|s p|k s f]; cbn [step snd op_strict op_sig] in *.
+    all: try (assert (new = []) by
+               (apply (app_inv_tail (st_log st));
+                first [rewrite P_Events.new_scope_log in L|rewrite P_Events.provide_log in L|rewrite P_Events.decorate_log in L|idtac];
+                exact (eq_sym L)); subst new; destruct Hc).
+    all: destruct HG as (Hgood & _ & Hfr); destruct HT as (HRI & _).
+    all: destruct (invoke_analysis st s p r HRI Hgood (Hfr _ (or_introl eq_refl)) HR HSI HUI HCI Hso Hno) as [_ (new' & En & An)].
+    all: assert (new' = new) by (rewrite L in En; apply app_inv_tail in En; congruence); subst new'.
+    all: pose proof (walk_events_ok (Allowed NO (is_nil (r_decs r))) _ new (st_log st) An _ Hc) as HA.
+    all: assert (Hnil : is_nil (r_decs r) = true) by (rewrite (rr_decs HR), (Hnodec HN); reflexivity).
+    all: rewrite Hnil in HA; destruct HA as [[_ H]|[[_ H]|(_ & _ & H)]]; discriminate.
   Qed.
 End Assembly.
 
@@ -3213,39 +3724,67 @@ Theorem prov_refines_gen : forall cfg bt du h,
   wf_scopes h = true -> wf_keys h = true -> wf_strict h = true -> P_Once.wf_fns h = true ->
   cfg_dry cfg = false ->
   forall i c, In (i, c) (chk_prov bt h (map obs_of (run cfg (beh_of bt) du h))) ->
-    c = 112 \/ c = 132 \/ c = 123 \/ (c = 120 /\ has_opt h = true).
+    c = 112 \/ c = 132 \/ (c = 120 /\ has_opt h = true /\ has_dec h = true).
 Proof.
   intros cfg bt du h Hs Hk Hst Hf Hdry i c Hin.
-  set (NO := negb (has_opt h)).
-  assert (HA : Allowed NO c).
+  set (NO := negb (has_opt h)). set (ND := negb (has_dec h)).
+  assert (HA : GAllowed NO ND c).
   { unfold chk_prov, run in Hin. revert Hin.
     change (@nil lentry) with (log_of_events (rev (st_log init_state))).
-    apply (walk_run_from_reg cfg (beh_of bt) du (MH bt NO)
-             (fun r log o ob => walk_events (chk_exec_event bt r log o) log (oo_events ob)) (Allowed NO)).
-    - intros st o h' HM. apply (MH_step cfg bt du Hdry NO); assumption.
+    apply (walk_run_from_reg cfg (beh_of bt) du (MH bt NO ND)
+             (fun r log o ob => walk_events (chk_exec_event bt r log o) log (oo_events ob)) (GAllowed NO ND)).
+    - intros st o h' HM. apply (MH_step cfg bt du Hdry NO ND); assumption.
     - intros st o h' HM. eapply MH_wf; eauto.
     - intros st o h' r new HM HR L c' Hc'. cbn [oo_events] in Hc'.
-      exact (MH_obligation cfg bt du Hdry NO st o h' r new HM HR L c' Hc').
-    - apply MH_init; auto. unfold hopt, NO. intros H. apply negb_true_iff in H. exact H.
+      exact (MH_obligation cfg bt du Hdry NO ND st o h' r new HM HR L c' Hc').
+    - apply MH_init; auto.
+      + unfold hopt, NO. intros H. apply negb_true_iff in H. exact H.
+      + unfold hdec, ND. intros H. apply negb_true_iff in H. exact H.
     - apply RegRel_init. }
-  destruct HA as [->|[->|[->|[-> HN]]]]; auto.
-  right; right; right. split; [reflexivity|]. unfold NO in HN. apply negb_false_iff in HN. exact HN.
+  destruct HA as [->|[->|(-> & HN & HD)]]; auto.
+  right; right. split; [reflexivity|]. unfold NO in HN. unfold ND in HD.
+  apply negb_false_iff in HN. apply negb_false_iff in HD. auto.
 Qed.
 Print Assumptions prov_refines_gen.
 
-(* no optional single parameter anywhere: only the D12 codes remain *)
-Corollary prov_refines_noopt : forall cfg bt du h,
+(* without decorators nothing is reported at all *)
+Corollary prov_refines_nodec : forall cfg bt du h,
+  wf_scopes h = true -> wf_keys h = true -> wf_strict h = true -> P_Once.wf_fns h = true ->
+  cfg_dry cfg = false -> has_dec h = false ->
+  chk_prov bt h (map obs_of (run cfg (beh_of bt) du h)) = [].
+Proof.
+  intros cfg bt du h Hs Hk Hst Hf Hdry Hnd. apply viols_nil. intros i c Hin.
+  set (NO := negb (has_opt h)). set (ND := negb (has_dec h)).
+  assert (HA : (fun _ : nat => False) c); [|exact HA].
+  unfold chk_prov, run in Hin. revert Hin.
+  change (@nil lentry) with (log_of_events (rev (st_log init_state))).
+  apply (walk_run_from_reg cfg (beh_of bt) du (MH bt NO ND)
+           (fun r log o ob => walk_events (chk_exec_event bt r log o) log (oo_events ob)) (fun _ => False)).
+  - intros st o h' HM. apply (MH_step cfg bt du Hdry NO ND); assumption.
+  - intros st o h' HM. eapply MH_wf; eauto.
+  - intros st o h' r new HM HR L c' Hc'. cbn [oo_events] in Hc'.
+    pose proof (MH_obligation_nodec cfg bt du Hdry NO ND st o h' r new HM HR L c' Hc') as H.
+    apply H. unfold ND. rewrite Hnd. reflexivity.
+  - apply MH_init; auto.
+    + unfold hopt, NO. intros H. apply negb_true_iff in H. exact H.
+    + unfold hdec, ND. intros H. apply negb_true_iff in H. exact H.
+  - apply RegRel_init.
+Qed.
+Print Assumptions prov_refines_nodec.
+
+(* no optional single parameter: exactly the D12 codes *)
+Corollary prov_refines_strict : forall cfg bt du h,
   wf_scopes h = true -> wf_keys h = true -> wf_strict h = true -> P_Once.wf_fns h = true ->
   cfg_dry cfg = false -> has_opt h = false ->
   forall i c, In (i, c) (chk_prov bt h (map obs_of (run cfg (beh_of bt) du h))) ->
-    c = 112 \/ c = 132 \/ c = 123.
+    c = 112 \/ c = 132.
 Proof.
   intros cfg bt du h Hs Hk Hst Hf Hdry Hno i c Hin.
-  destruct (prov_refines_gen cfg bt du h Hs Hk Hst Hf Hdry i c Hin) as [H|[H|[H|[_ H]]]]; auto. congruence.
+  destruct (prov_refines_gen cfg bt du h Hs Hk Hst Hf Hdry i c Hin) as [H|[H|(_ & H1 & _)]]; auto. congruence.
 Qed.
-Print Assumptions prov_refines_noopt.
+Print Assumptions prov_refines_strict.
 
-(* RI: the invoked function runs exactly once; chk_C01 *)
+(* ---- the invoked function runs exactly once; chk_C01 *)
 
 Definition inv_ev (f : fnid) (ev : event) : bool :=
   match ev with EExec f' _ RoleInv _ _ => Nat.eqb f f' | _ => false end.
@@ -3391,7 +3930,7 @@ Theorem chk_C01_refines : forall cfg bt du h,
   wf_scopes h = true -> wf_keys h = true -> wf_strict h = true -> P_Once.wf_fns h = true ->
   cfg_dry cfg = false ->
   forall i c, In (i, c) (chk_C01 cfg bt h (map obs_of (run cfg (beh_of bt) du h))) ->
-    c = 112 \/ c = 132 \/ c = 123 \/ (c = 120 /\ has_opt h = true).
+    c = 112 \/ c = 132 \/ (c = 120 /\ has_opt h = true /\ has_dec h = true).
 Proof.
   intros cfg bt du h Hs Hk Hst Hf Hdry i c Hin. unfold chk_C01 in Hin.
   apply in_app_or in Hin as [Hin|Hin].
@@ -3422,22 +3961,42 @@ Proof.
 Qed.
 
 (* THE MAIN THEOREM.  On traces of the model the provenance checker reports
-   only the codes of the recorded finding D12 (112, 132), the out-of-scope
-   code 123 and -- only for histories with optional single parameters -- code
-   120 in the one situation exhibited by [Counterexamples.cex_opt_late] below. *)
+   only the codes of the recorded finding D12 (112, 132) and -- only for
+   histories with BOTH an optional single parameter and a decorator -- code
+   120 in the one situation exhibited by [Counterexamples.cex_opt_late] below.
+   Code 123 is never reported. *)
 Theorem prov_refines : forall cfg bt du h,
   wf_scopes h = true -> wf_strict h = true -> P_Once.wf_fns h = true -> cfg_dry cfg = false ->
   forall i c, In (i, c) (chk_prov bt h (map obs_of (run cfg (beh_of bt) du h))) ->
-    c = 112 \/ c = 132 \/ c = 123 \/ (c = 120 /\ has_opt h = true).
+    c = 112 \/ c = 132 \/ (c = 120 /\ has_opt h = true /\ has_dec h = true).
 Proof.
   intros cfg bt du h Hs Hst Hf Hdry. apply prov_refines_gen; auto. apply wf_strict_keys. exact Hst.
 Qed.
 Print Assumptions prov_refines.
 
+(* without Decorate the provenance checker accepts every trace of the model *)
+Theorem prov_refines_no_decorators : forall cfg bt du h,
+  wf_scopes h = true -> wf_strict h = true -> P_Once.wf_fns h = true -> cfg_dry cfg = false ->
+  has_dec h = false -> chk_prov bt h (map obs_of (run cfg (beh_of bt) du h)) = [].
+Proof.
+  intros cfg bt du h Hs Hst Hf Hdry. apply prov_refines_nodec; auto. apply wf_strict_keys. exact Hst.
+Qed.
+Print Assumptions prov_refines_no_decorators.
+
+(* without optional single parameters: exactly D12 *)
+Theorem prov_refines_no_optionals : forall cfg bt du h,
+  wf_scopes h = true -> wf_strict h = true -> P_Once.wf_fns h = true -> cfg_dry cfg = false ->
+  has_opt h = false ->
+  forall i c, In (i, c) (chk_prov bt h (map obs_of (run cfg (beh_of bt) du h))) -> c = 112 \/ c = 132.
+Proof.
+  intros cfg bt du h Hs Hst Hf Hdry. apply prov_refines_strict; auto. apply wf_strict_keys. exact Hst.
+Qed.
+Print Assumptions prov_refines_no_optionals.
+
 Theorem C01_refines : forall cfg bt du h,
   wf_scopes h = true -> wf_strict h = true -> P_Once.wf_fns h = true -> cfg_dry cfg = false ->
   forall i c, In (i, c) (chk_C01 cfg bt h (map obs_of (run cfg (beh_of bt) du h))) ->
-    c = 112 \/ c = 132 \/ c = 123 \/ (c = 120 /\ has_opt h = true).
+    c = 112 \/ c = 132 \/ (c = 120 /\ has_opt h = true /\ has_dec h = true).
 Proof.
   intros cfg bt du h Hs Hst Hf Hdry. apply chk_C01_refines; auto. apply wf_strict_keys. exact Hst.
 Qed.
@@ -3447,14 +4006,14 @@ Print Assumptions C01_refines.
 Corollary C08_refines : forall cfg bt du h,
   wf_scopes h = true -> wf_strict h = true -> P_Once.wf_fns h = true -> cfg_dry cfg = false ->
   forall i c, In (i, c) (chk_C08 bt h (map obs_of (run cfg (beh_of bt) du h))) ->
-    c = 112 \/ c = 132 \/ c = 123 \/ (c = 120 /\ has_opt h = true).
+    c = 112 \/ c = 132 \/ (c = 120 /\ has_opt h = true /\ has_dec h = true).
 Proof. exact prov_refines. Qed.
 
 (* C10 = provenance + C02 (which P_Term closed) *)
 Corollary C10_refines : forall cfg bt du h,
   wf_scopes h = true -> wf_strict h = true -> P_Once.wf_fns h = true -> cfg_dry cfg = false ->
   forall i c, In (i, c) (chk_C10 bt h (map obs_of (run cfg (beh_of bt) du h))) ->
-    c = 112 \/ c = 132 \/ c = 123 \/ (c = 120 /\ has_opt h = true).
+    c = 112 \/ c = 132 \/ (c = 120 /\ has_opt h = true /\ has_dec h = true).
 Proof.
   intros cfg bt du h Hs Hst Hf Hdry i c Hin. unfold chk_C10 in Hin. apply in_app_or in Hin as [Hin|Hin].
   - eapply prov_refines; eauto.
@@ -3518,7 +4077,7 @@ Module RefineExample.
       ODecorate 0 (mkDecorateIn 3 (mkSig [PSingle (K 2) false] [RSingle (K 1) []] false) false);
       ODecorate 0 (mkDecorateIn 4 (mkSig [PSingle (K 1) false] [RSingle (K 2) []] false) false);
       OInvoke 0 (mkInvokeIn 5 (mkSig [PSingle (K 1) false] [] false)) ].
-  Example hB_wf : (wf_scopes hB, wf_strict hB, P_Once.wf_fns hB, has_opt hB) = (true, true, true, false).
+  Example hB_wf : (wf_scopes hB, wf_strict hB, P_Once.wf_fns hB, has_opt hB, has_dec hB) = (true, true, true, false, true).
   Proof. vm_compute. reflexivity. Qed.
   Example hB_prov : chk_prov [] hB (map obs_of (run cfg0 (beh_of []) d0 hB)) = [(4, 112)].
   Proof. vm_compute. reflexivity. Qed.
@@ -3532,6 +4091,27 @@ Module RefineExample.
   Example hB2_wf : (wf_scopes hB2, wf_strict hB2, P_Once.wf_fns hB2) = (true, true, true).
   Proof. vm_compute. reflexivity. Qed.
   Example hB2_prov : chk_prov [] hB2 (map obs_of (run cfg0 (beh_of []) d0 hB2)) = [(4, 132)].
+  Proof. vm_compute. reflexivity. Qed.
+
+  (* (c) no decorators, an optional parameter whose provider cannot succeed
+     (fn 1 needs K9, which nobody provides; fn 2 needs fn 1's K1): zero is
+     delivered, and neither 122 nor 123 is reported: fn 1 is not available *)
+  Definition hC : history :=
+    [ OProvide 0 (mkProvideIn 1 (mkSig [PSingle (K 9) false] [RSingle (K 1) []] false) false false);
+      OProvide 0 (mkProvideIn 2 (mkSig [PSingle (K 1) false] [RSingle (K 2) []] false) false false);
+      OInvoke 0 (mkInvokeIn 3 (mkSig [PSingle (K 2) true; PSingle (K 1) true] [] false));
+      OProvide 0 (mkProvideIn 4 (mkSig [] [RSingle (K 9) []] false) false false);
+      OInvoke 0 (mkInvokeIn 5 (mkSig [PSingle (K 2) true] [] false)) ].
+  Example hC_wf : (wf_scopes hC, wf_strict hC, P_Once.wf_fns hC, has_opt hC, has_dec hC) = (true, true, true, true, false).
+  Proof. vm_compute. reflexivity. Qed.
+  Example hC_events : map oo_events (map obs_of (run cfg0 (beh_of []) d0 hC)) =
+    [[]; []; [EExec 3 0 RoleInv [ASingle AZero; ASingle AZero] (OOk [])]; [];
+     [EExec 4 0 RoleCtor [] (OOk []);
+      EExec 1 0 RoleCtor [ASingle (AProd 4 0 0 0)] (OOk []);
+      EExec 2 0 RoleCtor [ASingle (AProd 1 0 0 0)] (OOk []);
+      EExec 5 0 RoleInv [ASingle (AProd 2 0 0 0)] (OOk [])]].
+  Proof. vm_compute. reflexivity. Qed.
+  Example hC_prov : chk_prov [] hC (map obs_of (run cfg0 (beh_of []) d0 hC)) = [].
   Proof. vm_compute. reflexivity. Qed.
 End RefineExample.
 
@@ -3551,7 +4131,8 @@ Module Counterexamples.
       ODecorate 0 (mkDecorateIn 2 (mkSig [] [RSingle (K 9) []] false) false);
       OInvoke 0 (mkInvokeIn 3 (mkSig [PSingle (K 1) true; PSingle (K 9) true; PSingle (K 1) true] [] false)) ].
   Example cex_opt_late_wf :
-    (wf_scopes cex_opt_late, wf_keys cex_opt_late, wf_strict cex_opt_late, P_Once.wf_fns cex_opt_late) = (true, true, true, true).
+    (wf_scopes cex_opt_late, wf_keys cex_opt_late, wf_strict cex_opt_late, P_Once.wf_fns cex_opt_late,
+     has_opt cex_opt_late, has_dec cex_opt_late) = (true, true, true, true, true, true).
   Proof. vm_compute. reflexivity. Qed.
   Example cex_opt_late_events : nth 2 (map oo_events (map obs_of (run cfg0 (beh_of []) d0 cex_opt_late))) [] =
     [EExec 2 0 RoleDec [] (OOk []);
